@@ -1,6 +1,19 @@
 (** Deletion blocks ([mm_modify HO m [] dels targets proof] = [remove]) preserve the ONE invariant
-    [MapMutAdd.Inv] of Proofs/MapMutAdd.v / Proofs/MapMutUnify.v (tidiness of partial forests
-    included), from the theorems of Proofs/MapMutRemove.v about [MapMutRemove.Inv].
+    [MapMutAdd.Inv] of Proofs/MapMutAdd.v / Proofs/MapMutUnify.v, TIDINESS of partial forests
+    included ("a set flag marks only remembered leaves; every stored node is a root, a known
+    coordinate or the sibling of a known non-root"), from the theorems of Proofs/MapMutRemove.v about
+    [MapMutRemove.Inv].
+
+    Results (all closed under the global context, for every [H], [HO] with a correct [op_eqb]):
+    - [delete_leaves_AInv] (the lemma for a [DelBlock] of a history), [delete_hashes_AInv] (targets =
+      [GetLeafHashPositions]): [MapMutAdd.Inv s R m] -> the side conditions of
+      [MapMutRemove.mm_modify_delete_leaves] -> [mm_modify HO m [] dels targets proof = Some m'] and
+      [MapMutAdd.Inv (kill dels s) (R - dels) m'], [ms_n], [ms_total], [ms_full] unchanged; full and
+      partial forests.  [delete_leaves_AInv_full]: full forests only (no tidiness needed).
+    - [modify_block_AInv]: a whole block [mm_modify HO m adds dels targets proof] (the deletions, then
+      the additions: [MapMutAdd.modify_adds_gen]).
+    Side condition beyond those of the two files: no live leaf is a [hash2] image (field
+    [i_live_nn] of [MapMutRemove.Inv]; a condition on [s] alone, kept by [kill]).
 
     - Part 1: [MapMutAdd.Inv] does not say that the keys of the cached map are pairwise distinct
       ([MapMutRemove.Inv] does): [sim_modify] runs the block on the cache with the repeated keys
@@ -9,9 +22,14 @@
     - Part 2: the bridges [AInv_RInv] and [RInv_AInv] ([known_path]: the inductive [known] of
       [MapMutAdd] = the ancestors of the remembered leaves inside their trees).
     - Part 3: [delete_leaves_bridge]: a deletion block preserves [MapMutAdd.Inv] provided the node
-      map it leaves behind is tidy; [delete_leaves_AInv_full]: full forests.
-    Side condition beyond those of [MapMutRemove.mm_modify_delete_leaves]: no live leaf is a
-    [hash2] image (field [i_live_nn] of [MapMutRemove.Inv]; [MapMutAdd.Inv] has no such clause). *)
+      map it leaves behind is tidy.
+    - Parts 4-9, tidiness on the layout ([Tidy2]/[tidy2x E]: tidy outside the exceptions [E]):
+      [prune_pair_tidy] ([prunePosition] at a node removes the exception at the node and its sibling),
+      [fud_node_tidy]/[fud_from_del_tidy] ([forgetUnneededDel] removes the exceptions along the path
+      to the root), [t_src] (where a binding of the node map after the moves and [updateHashes] comes
+      from), [t_tidy4] (that map is tidy outside the path), [removeSingle_node_tidy],
+      [remove_fold_tidy], [remove_leaves_tidy].
+    - Part 10: [needed_nneed], [Tidy_Tidy2], [Tidy2_Tidy]: the two formulations of tidiness. *)
 From Utreexo Require Import Base.Hash Model.Utils Model.UtilsFast Model.Verify Model.MapRead
   Model.MapMut Spec.Forest Spec.Oracle Spec.Geometry
   Proofs.UtilsGeom Proofs.UtilsGeom2 Proofs.SpecBasics Proofs.StumpAdd Proofs.LayoutStruct
@@ -408,4 +426,1181 @@ Section DeleteAInv.
     intros Hf. congruence.
   Qed.
 End DeleteAInv.
+
+(** * 4. Tidiness in terms of the layout, and pruning *)
+Definition sibc (c : nat * N) : nat * N := (fst c, N.lxor (snd c) 1).
+
+Lemma sibc_invol c : sibc (sibc c) = c.
+Proof. destruct c as [r o]. unfold sibc. cbn [fst snd]. rewrite pps_lxor_invol. reflexivity. Qed.
+
+Lemma under_child_sib c r o : under c (r, o) -> (r < fst c)%nat -> under c (sibc (r, o)).
+Proof. intros U Hlt. exact (under_sib c r o U Hlt). Qed.
+
+Section TidyDefs.
+  Variable H : Type.
+  Variable HO : ops H.
+
+  (** a remembered leaf lies at or below the coordinate *)
+  Definition onp (s : slots H) (Rn : list H) (c : nat * N) : Prop :=
+    exists w, In w (layout HO s) /\ nleaf w = true /\ In (nhash w) Rn /\ under c (coord w).
+  Definition nneed (s : slots H) (Rn : list H) (y : node H) : Prop :=
+    nroot y = true \/ onp s Rn (coord y) \/ onp s Rn (sibc (coord y)).
+
+  (** the flag marks remembered leaves only; every stored node outside [E] is needed *)
+  Definition tidy2x (s : slots H) (Rn : list H) (m : mstate H) (E : nat * N -> Prop) : Prop :=
+    (forall y h, In y (layout HO s) ->
+       nodes_get (ms_nodes m) (gp (ms_total m) (nrow y) (noff y)) = Some (h, true) ->
+       nleaf y = true /\ In (nhash y) Rn) /\
+    (forall y, In y (layout HO s) -> ~ E (coord y) ->
+       nodes_get (ms_nodes m) (gp (ms_total m) (nrow y) (noff y)) <> None -> nneed s Rn y).
+  Definition Tidy2 s Rn m := tidy2x s Rn m (fun _ => False).
+
+  Lemma tidy2x_weaken s Rn m (E E' : nat * N -> Prop) : (forall c, E c -> E' c) ->
+    tidy2x s Rn m E -> tidy2x s Rn m E'.
+  Proof.
+    intros HE [T1 T2]. split; [exact T1|]. intros y Hy Hn Hs. apply (T2 y Hy); [|exact Hs].
+    intros C. exact (Hn (HE _ C)).
+  Qed.
+End TidyDefs.
+
+Section PruneTidy.
+  Variable H : Type.
+  Variable HO : ops H.
+  Hypothesis HOK : ops_ok HO.
+  Variable s : slots H.
+  Variables Rc Rn : list H.
+  Notation lay := (layout HO s).
+
+  (** [prunePosition] at the node [q] (no root) removes the exception at [q] and its sibling;
+      the other exceptions [F] lie in higher rows *)
+  Lemma prune_pair_tidy m q (F : nat * N -> Prop) : Inv2 HO s Rc Rn m -> In q lay -> nroot q = false ->
+    (forall c, F c -> (nrow q < fst c)%nat) ->
+    tidy2x H HO s Rn m (fun c => c = coord q \/ c = sibc (coord q) \/ F c) ->
+    tidy2x H HO s Rn (set_nodes m (prunePosition HO (ms_total m) (ms_nodes m)
+                                     (gp (ms_total m) (nrow q) (noff q)))) F.
+  Proof.
+    intros I Hq Hr HF [T1 T2].
+    destruct (ng_family H HO s q Hq Hr) as (p & sq & _ & Hsq & Hsr & _ & Esq & _).
+    destruct (coord_eq _ _ _ Esq) as [Er Eo].
+    assert (Esib : sibling (gp (ms_total m) (nrow q) (noff q)) = gp (ms_total m) (nrow sq) (noff sq)).
+    { destruct (pi_valid H HO s Rc Rn m I q Hq) as [A _]. unfold gp. rewrite sibling_gpos by exact A.
+      rewrite Er, Eo. reflexivity. }
+    assert (Ecsq : coord sq = sibc (coord q)) by (rewrite Esq; reflexivity).
+    assert (Ecq : coord q = sibc (coord sq)) by (rewrite Ecsq, sibc_invol; reflexivity).
+    (* a stored child of a node [b] makes [b] known *)
+    assert (Hchild : forall b, In b lay -> nroot b = false -> nrow b = nrow q ->
+              niecesPresent (ms_total m) (ms_nodes m) (sibling (gp (ms_total m) (nrow b) (noff b))) = true -> onp H HO s Rn (coord b)).
+    { intros b Hb Rb Ebr Hnp. unfold niecesPresent in Hnp.
+      destruct (ng_family H HO s b Hb Rb) as (_ & sb & _ & Hsb & _ & _ & Esb & _).
+      destruct (coord_eq _ _ _ Esb) as [Esr Eso].
+      assert (Es2 : sibling (gp (ms_total m) (nrow b) (noff b)) = gp (ms_total m) (nrow sb) (noff sb)).
+      { destruct (pi_valid H HO s Rc Rn m I b Hb) as [A _]. unfold gp. rewrite sibling_gpos by exact A.
+        rewrite Esr, Eso. reflexivity. }
+      assert (Es3 : sibling (gp (ms_total m) (nrow sb) (noff sb)) = gp (ms_total m) (nrow b) (noff b)).
+      { destruct (pi_valid H HO s Rc Rn m I sb Hsb) as [A _]. unfold gp. rewrite sibling_gpos by exact A.
+        rewrite Esr, Eso, pps_lxor_invol. reflexivity. }
+      rewrite Es2, Es3 in Hnp.
+      destruct (nrow b) as [|r'] eqn:Erb.
+      { exfalso. destruct (pi_valid H HO s Rc Rn m I sb Hsb) as [A B].
+        unfold gp in Hnp. rewrite DetectRow_gpos in Hnp; [|exact (i_T63 I)|exact A|exact B].
+        rewrite Esr in Hnp. cbn in Hnp. discriminate. }
+      destruct (pi_children H HO s Rc Rn m I b r' Hb Erb) as (EL & ER & _).
+      destruct (pi_children H HO s Rc Rn m I sb r' Hsb ltac:(lia)) as (_ & _ & ED).
+      rewrite Erb in EL, ER. rewrite ED, EL, ER in Hnp.
+      destruct (N.eqb_spec (N.of_nat (S r')) 0) as [E0|_]; [lia|].
+      assert (Hc : forall e, e < 2 -> nodes_get (ms_nodes m) (gp (ms_total m) r' (2 * noff b + e)) <> None -> onp H HO s Rn (coord b)).
+      { intros e He Hs. destruct (nodes_get (ms_nodes m) (gp (ms_total m) r' (2 * noff b + e))) as [[hc bc]|] eqn:Ec; [|congruence].
+        destruct (i_true I _ _ _ Ec) as (c & Hcl & Epc & _).
+        destruct (pi_valid H HO s Rc Rn m I c Hcl) as [Ac Bc].
+        destruct (pi_valid H HO s Rc Rn m I b Hb) as [Ab Bb]. rewrite Erb in Ab, Bb.
+        assert (Hv : 2 * noff b + e < 2 ^ ((ms_total m) - N.of_nat r')).
+        { replace ((ms_total m) - N.of_nat r') with ((ms_total m) - N.of_nat (S r') + 1) by lia. rewrite UtilsGeom.pow2_S. lia. }
+        assert (Hr' : N.of_nat r' <= ms_total m) by lia.
+        unfold gp in Epc. destruct (gpos_inj (ms_total m) _ _ _ _ Hr' Hv Ac Bc Epc) as [Erc Eoc].
+        assert (Ucb : under (coord b) (coord c)).
+        { apply (under_compose (coord b) (coord c) e); unfold coord; cbn [fst snd]; [lia| |].
+          - rewrite Erb. replace (S r' - nrow c)%nat with 1%nat by lia. change (2 ^ N.of_nat 1) with 2. lia.
+          - rewrite Erb. replace (S r' - nrow c)%nat with 1%nat by lia. exact He. }
+        assert (Hnc : ~ (coord c = coord q \/ coord c = sibc (coord q) \/ F (coord c))).
+        { intros [C|[C|C]].
+          - pose proof (f_equal fst C) as C1. unfold coord in C1. cbn in C1. lia.
+          - pose proof (f_equal fst C) as C1. unfold coord, sibc in C1. cbn in C1. lia.
+          - apply HF in C. unfold coord in C. cbn [fst] in C. lia. }
+        assert (Hsc : nodes_get (ms_nodes m) (gp (ms_total m) (nrow c) (noff c)) <> None).
+        { unfold gp. rewrite <- Epc. fold (gp (ms_total m) r' (2 * noff b + e)). rewrite Ec. discriminate. }
+        destruct (T2 c Hcl Hnc Hsc) as [Rc'|[(w & Hw & Lw & Hh & Uw)|(w & Hw & Lw & Hh & Uw)]].
+        - exfalso. exact (ng_root_top H HO s (ms_total m) (pi_n63 H HO s Rc Rn m I) (pi_Tlo H HO s Rc Rn m I) (i_T63 I)
+                            b c Hb Hcl Rb Rc' Ucb).
+        - exists w. split; [exact Hw|]. split; [exact Lw|]. split; [exact Hh|]. exact (under_trans _ _ _ Ucb Uw).
+        - exists w. split; [exact Hw|]. split; [exact Lw|]. split; [exact Hh|].
+          assert (Ucs : under (coord b) (sibc (coord c))).
+          { unfold coord at 2. apply under_child_sib; [exact Ucb|]. unfold coord. cbn [fst]. lia. }
+          exact (under_trans _ _ _ Ucs Uw). }
+      apply orb_true_iff in Hnp as [Hn1|Hn1]; unfold nodes_has in Hn1.
+      - apply (Hc 0); [lia|]. rewrite N.add_0_r. destruct (nodes_get (ms_nodes m) (gp (ms_total m) r' (2 * noff b))); [discriminate|discriminate].
+      - apply (Hc 1); [lia|]. destruct (nodes_get (ms_nodes m) (gp (ms_total m) r' (2 * noff b + 1))); [discriminate|discriminate]. }
+    split.
+    - intros y h Hy E. cbn [set_nodes ms_nodes ms_total] in E. apply prunePosition_sub in E. exact (T1 y h Hy E).
+    - intros y Hy HnF Hst. cbn [set_nodes ms_nodes ms_total] in Hst.
+      destruct (nodes_get (prunePosition HO (ms_total m) (ms_nodes m) (gp (ms_total m) (nrow q) (noff q))) (gp (ms_total m) (nrow y) (noff y))) as [v|] eqn:Ev;
+        [clear Hst|congruence].
+      pose proof (prunePosition_sub H HO _ _ _ _ _ Ev) as Ev0.
+      assert (Hst0 : nodes_get (ms_nodes m) (gp (ms_total m) (nrow y) (noff y)) <> None) by (rewrite Ev0; discriminate).
+      assert (Hdq : coord y = coord q \/ coord y <> coord q).
+      { destruct (Nat.eq_dec (nrow y) (nrow q)) as [E1|E1]; [|right; intros C; apply E1; exact (f_equal fst C)].
+        destruct (N.eq_dec (noff y) (noff q)) as [E2|E2]; [left; unfold coord; congruence|].
+        right. intros C. apply E2. exact (f_equal snd C). }
+      assert (Hds : coord y = coord sq \/ coord y <> coord sq).
+      { destruct (Nat.eq_dec (nrow y) (nrow sq)) as [E1|E1]; [|right; intros C; apply E1; exact (f_equal fst C)].
+        destruct (N.eq_dec (noff y) (noff sq)) as [E2|E2]; [left; unfold coord; congruence|].
+        right. intros C. apply E2. exact (f_equal snd C). }
+      assert (Hflag : forall b, In b lay -> snd (nodes_get0 HO (ms_nodes m) (gp (ms_total m) (nrow b) (noff b))) = true ->
+                onp H HO s Rn (coord b)).
+      { intros b Hb Fb. unfold nodes_get0 in Fb.
+        destruct (nodes_get (ms_nodes m) (gp (ms_total m) (nrow b) (noff b))) as [[hb fb]|] eqn:Eb; [|discriminate].
+        cbn [snd] in Fb. subst fb. destruct (T1 b hb Hb Eb) as [Lb Hh].
+        exists b. split; [exact Hb|]. split; [exact Lb|]. split; [exact Hh|]. apply under_refl. }
+      assert (Hne : gp (ms_total m) (nrow sq) (noff sq) <> gp (ms_total m) (nrow q) (noff q)).
+      { intros E. pose proof (pi_inj H HO s Rc Rn m I sq q Hsq Hq E) as Eqs. rewrite Eqs in Eo.
+        pose proof (lxor_1 (noff q)) as Hx. destruct (N.even (noff q)) eqn:Ev'; [lia|].
+        pose proof (odd_nz _ Ev'). lia. }
+      destruct Hdq as [Eyq|Nyq]; [|destruct Hds as [Eys|Nys]].
+      + (* the position itself *)
+        rewrite (ng_coord_eq H HO s y q Hy Hq Eyq) in *. clear Eyq.
+        unfold prunePosition in Ev. rewrite Esib in Ev.
+        destruct (snd (nodes_get0 HO (ms_nodes m) (gp (ms_total m) (nrow q) (noff q)))) eqn:F1; cbn [negb andb] in Ev.
+        { right. left. exact (Hflag q Hq F1). }
+        destruct (snd (nodes_get0 HO (ms_nodes m) (gp (ms_total m) (nrow sq) (noff sq)))) eqn:F2; cbn [negb andb] in Ev.
+        { right. right. rewrite <- Ecsq. exact (Hflag sq Hsq F2). }
+        right. right. rewrite <- Ecsq. apply (Hchild sq Hsq Hsr Er).
+        assert (Es3 : sibling (gp (ms_total m) (nrow sq) (noff sq)) = gp (ms_total m) (nrow q) (noff q)).
+        { destruct (pi_valid H HO s Rc Rn m I sq Hsq) as [A _]. unfold gp. rewrite sibling_gpos by exact A.
+          rewrite Er, Eo, pps_lxor_invol. reflexivity. }
+        rewrite Es3.
+        destruct (niecesPresent (ms_total m) (ms_nodes m) (gp (ms_total m) (nrow sq) (noff sq))) eqn:N1.
+        * destruct (niecesPresent (ms_total m) (ms_nodes m) (gp (ms_total m) (nrow q) (noff q))) eqn:N2; [reflexivity|].
+          rewrite rg_del, N.eqb_refl in Ev. discriminate.
+        * destruct (niecesPresent (ms_total m) (nodes_del (gp (ms_total m) (nrow sq) (noff sq)) (ms_nodes m)) (gp (ms_total m) (nrow q) (noff q))) eqn:N2.
+          -- exact (nieces_del_mono H _ _ _ _ N2).
+          -- rewrite rg_del, N.eqb_refl in Ev. discriminate.
+      + (* its sibling *)
+        rewrite (ng_coord_eq H HO s y sq Hy Hsq Eys) in *. clear Eys.
+        unfold prunePosition in Ev. rewrite Esib in Ev.
+        destruct (snd (nodes_get0 HO (ms_nodes m) (gp (ms_total m) (nrow q) (noff q)))) eqn:F1; cbn [negb andb] in Ev.
+        { right. right. rewrite <- Ecq. exact (Hflag q Hq F1). }
+        destruct (snd (nodes_get0 HO (ms_nodes m) (gp (ms_total m) (nrow sq) (noff sq)))) eqn:F2; cbn [negb andb] in Ev.
+        { right. left. exact (Hflag sq Hsq F2). }
+        right. right. rewrite <- Ecq. apply (Hchild q Hq Hr eq_refl). rewrite Esib.
+        destruct (niecesPresent (ms_total m) (ms_nodes m) (gp (ms_total m) (nrow sq) (noff sq))) eqn:N1; [reflexivity|].
+        exfalso. destruct (niecesPresent (ms_total m) (nodes_del (gp (ms_total m) (nrow sq) (noff sq)) (ms_nodes m)) (gp (ms_total m) (nrow q) (noff q))).
+        * rewrite rg_del, N.eqb_refl in Ev. discriminate.
+        * rewrite !rg_del, N.eqb_refl in Ev.
+          destruct (N.eqb_spec (gp (ms_total m) (nrow sq) (noff sq)) (gp (ms_total m) (nrow q) (noff q))); discriminate.
+      + apply (T2 y Hy); [|exact Hst0]. intros [C|[C|C]]; [exact (Nyq C)| |exact (HnF C)].
+        apply Nys. rewrite Ecsq. exact C.
+  Qed.
+End PruneTidy.
+
+(** * 5. [forgetUnneededDel] removes the exceptions along a path *)
+Section FudTidy.
+  Variable H : Type.
+  Variable HO : ops H.
+  Hypothesis HOK : ops_ok HO.
+  Variable s : slots H.
+  Variables Rc Rn : list H.
+  Notation lay := (layout HO s).
+
+  (** the nodes strictly above [y] that are no roots, and their siblings *)
+  Definition Ex (y : node H) (c : nat * N) : Prop :=
+    exists a, In a lay /\ nroot a = false /\ under (coord a) (coord y) /\ (nrow y < nrow a)%nat /\
+              (c = coord a \/ c = sibc (coord a)).
+
+  Lemma fud_node_tidy : forall (fuel : nat) m y, Inv2 HO s Rc Rn m -> In y lay -> nroot y = false ->
+    tidy2x H HO s Rn m (Ex y) -> (ntree y - nrow y <= fuel)%nat ->
+    Tidy2 H HO s Rn (set_nodes m (fud_loop HO fuel (ms_n m) (ms_total m) (N.of_nat (nrow y))
+                                    (gp (ms_total m) (nrow y) (noff y)) (ms_nodes m))).
+  Proof.
+    induction fuel as [|f IH]; intros m y I Hy Hr Ht Hf.
+    - pose proof (pi_n63 H HO s Rc Rn m I) as Hn63.
+      apply (nonroot_iff_row H HO s Hn63 y Hy) in Hr. lia.
+    - cbn [fud_loop]. pose proof (pi_n63 H HO s Rc Rn m I) as Hn63.
+      pose proof (pi_Tlo H HO s Rc Rn m I) as HTlo. pose proof (i_T63 I) as HT.
+      destruct (ng_family H HO s y Hy Hr) as (p & _ & Hp & _ & _ & _ & _ & Ep & Etp & _).
+      destruct (coord_eq _ _ _ Ep) as [Epr Epo].
+      destruct (pi_valid H HO s Rc Rn m I y Hy) as [A B]. destruct (pi_valid H HO s Rc Rn m I p Hp) as [C _].
+      destruct (N.ltb_spec (ms_total m) (N.of_nat (nrow y))) as [Lt|_]; [lia|].
+      assert (Epar : Parent (gp (ms_total m) (nrow y) (noff y)) (ms_total m) = gp (ms_total m) (nrow p) (noff p)).
+      { unfold gp. rewrite Parent_gpos; [|exact HT|lia|exact B]. rewrite Epr, Epo. f_equal. lia. }
+      rewrite Epar.
+      assert (Eroot : isRootPositionTotalRows (gp (ms_total m) (nrow p) (noff p)) (ms_n m) (ms_total m) = nroot p).
+      { pose proof (i_n I) as En. unfold num_leaves in En. rewrite En.
+        exact (ng_isroot H HO s (ms_total m) Hn63 HTlo HT p Hp). }
+      rewrite Eroot.
+      assert (Uyp : under (coord p) (coord y)).
+      { rewrite Ep. exact (proj2 (under_sib_par (nrow y) (noff y))). }
+      assert (Habove : forall a, In a lay -> under (coord a) (coord y) -> (nrow y < nrow a)%nat ->
+                under (coord a) (coord p)).
+      { intros a Ha Ua Hlt. rewrite Ep. unfold coord at 2 in Ua. apply under_par; [exact Ua|].
+        unfold coord. cbn [fst]. exact Hlt. }
+      destruct (nroot p) eqn:Rp.
+      + (* the parent is a root: no exception is left *)
+        destruct m as [nd ca n T full]. cbn [set_nodes ms_nodes ms_cached ms_n ms_total ms_full] in *.
+        apply (tidy2x_weaken H HO s Rn _ (Ex y)); [|exact Ht].
+        intros c (a & Ha & Ra & Ua & Hlt & _).
+        exact (ng_root_top H HO s T Hn63 HTlo HT a p Ha Hp Ra Rp (Habove a Ha Ua Hlt)).
+      + pose proof (prunePosition_Inv2 H HO s Rc Rn m p I Hp Rp) as I1.
+        assert (Ht1 : tidy2x H HO s Rn (set_nodes m (prunePosition HO (ms_total m) (ms_nodes m)
+                                                 (gp (ms_total m) (nrow p) (noff p)))) (Ex p)).
+        { apply (prune_pair_tidy H HO s Rc Rn m p (Ex p) I Hp Rp).
+          - intros c (a & _ & _ & _ & Hlt & [-> | ->]); unfold coord, sibc; cbn [fst]; exact Hlt.
+          - apply (tidy2x_weaken H HO s Rn m (Ex y)); [|exact Ht].
+            intros c (a & Ha & Ra & Ua & Hlt & Hc).
+            destruct (Nat.eq_dec (nrow a) (nrow p)) as [Era|Era].
+            + assert (a = p).
+              { apply (ng_coord_eq H HO s a p Ha Hp). pose proof (Habove a Ha Ua Hlt) as [_ Eo].
+                unfold coord in *. cbn [fst snd] in *. rewrite Era, Nat.sub_diag, p2_0, N.div_1_r in Eo. congruence. }
+              subst a. destruct Hc as [-> | ->]; auto.
+            + right. right. exists a. split; [exact Ha|]. split; [exact Ra|].
+              split; [exact (Habove a Ha Ua Hlt)|]. split; [lia|exact Hc]. }
+        pose proof (IH _ p I1 Hp Rp Ht1 ltac:(cbn [set_nodes]; lia)) as R.
+        cbn [set_nodes ms_nodes ms_cached ms_n ms_total ms_full] in R |- *.
+        replace (add8 (N.of_nat (nrow y)) 1) with (N.of_nat (nrow p)); [exact R|].
+        rewrite add8_small by lia. lia.
+  Qed.
+
+  (** from the deleted position, whose parent position holds the node [y0] *)
+  Lemma fud_from_del_tidy nd ca n T full r o y0 : Inv2 HO s Rc Rn (mkM nd ca n T full) -> In y0 lay ->
+    r < T -> o < 2 ^ (T - r) ->
+    gp T (nrow y0) (noff y0) = gpos T (r + 1) (o / 2) ->
+    isRootPositionTotalRows (gpos T r o) n T = false ->
+    tidy2x H HO s Rn (mkM nd ca n T full)
+      (fun c => nroot y0 = false /\ (c = coord y0 \/ c = sibc (coord y0) \/ Ex y0 c)) ->
+    Tidy2 H HO s Rn (mkM (forgetUnneededDel HO n T (gpos T r o) nd) ca n T full).
+  Proof.
+    intros I Hy0 Hr Ho Eg Hnr Ht. pose proof (i_T63 I) as HT. cbn [ms_total] in HT.
+    pose proof (pi_n63 H HO s Rc Rn _ I) as Hn63.
+    unfold forgetUnneededDel. rewrite Hnr.
+    rewrite DetectRow_gpos by (try assumption; lia).
+    change 300%nat with (S 299). assert (Hf64 : (64 <= 299)%nat) by (apply Nat.leb_le; reflexivity).
+    revert Hf64. generalize 299%nat. intros f Hf64. cbn [fud_loop].
+    destruct (N.ltb_spec T r) as [Lt|_]; [lia|].
+    rewrite Parent_gpos by assumption. rewrite <- Eg.
+    assert (Eroot : isRootPositionTotalRows (gp T (nrow y0) (noff y0)) n T = nroot y0).
+    { pose proof (i_n I) as En. cbn [ms_n] in En. unfold num_leaves in En. rewrite En.
+      exact (ng_isroot H HO s T Hn63 (pi_Tlo H HO s Rc Rn _ I) HT y0 Hy0). }
+    rewrite Eroot. destruct (nroot y0) eqn:Ry.
+    - apply (tidy2x_weaken H HO s Rn _ _ (fun _ => False)) in Ht; [exact Ht|]. intros c [C _]. discriminate.
+    - pose proof (prunePosition_Inv2 H HO s Rc Rn _ y0 I Hy0 Ry) as I5.
+      assert (Ht1 : tidy2x H HO s Rn (set_nodes (mkM nd ca n T full)
+                       (prunePosition HO T nd (gp T (nrow y0) (noff y0)))) (Ex y0)).
+      { apply (prune_pair_tidy H HO s Rc Rn _ y0 (Ex y0) I Hy0 Ry).
+        - intros c (a & _ & _ & _ & Hlt & [-> | ->]); unfold coord, sibc; cbn [fst]; exact Hlt.
+        - apply (tidy2x_weaken H HO s Rn _ (fun c => false = false /\ (c = coord y0 \/ c = sibc (coord y0) \/ Ex y0 c)));
+            [intros c [_ Hc]; exact Hc|exact Ht]. }
+      assert (Hrow : add8 r 1 = N.of_nat (nrow y0)).
+      { rewrite add8_small by lia. destruct (pi_valid H HO s Rc Rn _ I y0 Hy0) as [A B]. cbn [ms_total] in A, B.
+        unfold gp in Eg.
+        assert (Hv : o / 2 < 2 ^ (T - (r + 1))).
+        { apply N.div_lt_upper_bound; [lia|]. rewrite <- UtilsGeom.pow2_S. replace (T - (r + 1) + 1) with (T - r) by lia. exact Ho. }
+        assert (Hr1 : r + 1 <= T) by lia.
+        destruct (gpos_inj T _ _ _ _ A B Hr1 Hv Eg) as [E1 _]. lia. }
+      rewrite Hrow.
+      pose proof (node_tree_63 H HO s Hn63 y0 Hy0) as H63.
+      exact (fud_node_tidy f _ y0 I5 Hy0 Ry Ht1 ltac:(lia)).
+  Qed.
+End FudTidy.
+
+(** * 6. The coordinates of the subtree that moves up *)
+Definition liftc (rd : nat) (c : nat * N) : nat * N :=
+  (S (fst c), rmbit (snd c) (N.of_nat (rd - fst c))).
+
+Lemma lxor1_half o : N.lxor o 1 / 2 = o / 2.
+Proof. destruct (pps_bit0 o) as (k & [(E1 & E2 & _ & E4)|(E1 & E2 & _ & E4)]); rewrite E2, E4; lia. Qed.
+
+Lemma lift_form rd od c : under (rd, N.lxor od 1) c ->
+  exists b, b < 2 ^ N.of_nat (rd - fst c) /\
+    snd c = N.lxor od 1 * 2 ^ N.of_nat (rd - fst c) + b /\
+    liftc rd c = (S (fst c), od / 2 * 2 ^ N.of_nat (rd - fst c) + b).
+Proof.
+  intros U. destruct (under_decomp _ _ U) as [E Hb]. cbn [fst snd] in E, Hb.
+  exists (snd c mod 2 ^ N.of_nat (rd - fst c)). split; [exact Hb|]. split; [exact E|].
+  unfold liftc. f_equal. rewrite E at 1. rewrite rmbit_block by exact Hb. rewrite lxor1_half. reflexivity.
+Qed.
+
+Lemma lift_underP rd od c : under (rd, N.lxor od 1) c -> under (S rd, od / 2) (liftc rd c).
+Proof.
+  intros U. destruct (lift_form rd od c U) as (b & Hb & _ & ->). destruct U as [Hr _]. cbn [fst] in Hr.
+  apply (under_compose (S rd, od / 2) (S (fst c), _) b); cbn [fst snd]; [lia| |];
+    replace (S rd - S (fst c))%nat with (rd - fst c)%nat by lia; [reflexivity|exact Hb].
+Qed.
+
+Lemma lift_under rd od c d : under (rd, N.lxor od 1) c -> under (rd, N.lxor od 1) d -> under c d ->
+  under (liftc rd c) (liftc rd d).
+Proof.
+  intros Uc Ud Ucd. destruct (lift_form rd od c Uc) as (bc & Hbc & Ec & ->).
+  destruct (lift_form rd od d Ud) as (bd & Hbd & Ed & ->).
+  destruct Uc as [Hrc _], Ud as [Hrd _], Ucd as [Hle Eo]. cbn [fst snd] in *.
+  split; cbn [fst snd]; [lia|]. unfold p2 in *.
+  replace (S (fst c) - S (fst d))%nat with (fst c - fst d)%nat by lia.
+  set (k := N.of_nat (fst c - fst d)) in *. set (jc := N.of_nat (rd - fst c)) in *.
+  set (jd := N.of_nat (rd - fst d)) in *.
+  assert (Ej : jd - k = jc) by lia. assert (Hk : k <= jd) by lia.
+  destruct (block_div (N.lxor od 1) jd bd k Hbd Hk) as [D1 D2].
+  destruct (block_div (od / 2) jd bd k Hbd Hk) as [D1' _].
+  rewrite Ed, D1, Ej, Ec in Eo. rewrite D1', Ej. rewrite Ej in D2.
+  assert (bd / 2 ^ k = bc) by lia. lia.
+Qed.
+
+Lemma lift_sib rd od c : under (rd, N.lxor od 1) c -> (fst c < rd)%nat ->
+  under (rd, N.lxor od 1) (sibc c) /\ liftc rd (sibc c) = sibc (liftc rd c).
+Proof.
+  intros U Hlt. destruct c as [r o]. cbn [fst] in Hlt.
+  assert (Us : under (rd, N.lxor od 1) (sibc (r, o))) by (apply under_child_sib; [exact U|exact Hlt]).
+  split; [exact Us|].
+  destruct (lift_form rd od _ U) as (b & Hb & Ec & ->).
+  destruct (lift_form rd od _ Us) as (b' & Hb' & Ec' & ->). unfold sibc in *. cbn [fst snd] in *.
+  f_equal.
+  destruct (block_lxor (N.lxor od 1) (N.of_nat (rd - r)) b ltac:(lia) Hb) as [X1 X2].
+  destruct (block_lxor (od / 2) (N.of_nat (rd - r)) b ltac:(lia) Hb) as [X1' _].
+  rewrite Ec, X1 in Ec'. rewrite X1'. assert (b' = N.lxor b 1) by lia. subst b'. reflexivity.
+Qed.
+
+(** * 7. One [removeSingle] on a node that is no root keeps a partial forest tidy *)
+Section StepTidy.
+  Variable H : Type.
+  Variable HO : ops H.
+  Hypothesis HOK : ops_ok HO.
+  Variable s : slots H.
+  Variables Rc Rn : list H.
+  Variable m : mstate H.
+  Hypothesis I : Inv2 HO s Rc Rn m.
+  Variable L : list H.
+  Variable x : node H.
+  Hypothesis Hx : In x (layout HO s).
+  Hypothesis Hxr : nroot x = false.
+  Hypothesis Hdel : forall y, In y (layout HO s) -> nleaf y = true ->
+    (memH HO (nhash y) L = true <-> under (coord x) (coord y)).
+  Hypothesis HLc : forall y, In y (layout HO s) -> nleaf y = true -> under (coord x) (coord y) ->
+    ~ In (nhash y) Rc.
+  Variable z : node H.
+  Hypothesis Hz : In z (layout HO s).
+  Hypothesis Lz : nleaf z = true.
+  Hypothesis Uz : under (coord x) (coord z).
+  Hypothesis Rz : In (nhash z) Rn.
+  Variables p sb : node H.
+  Hypothesis Hp : In p (layout HO s).
+  Hypothesis Hsb : In sb (layout HO s).
+  Hypothesis Hsbr : nroot sb = false.
+  Hypothesis Hpl : nleaf p = false.
+  Hypothesis Esb : coord sb = (nrow x, N.lxor (noff x) 1).
+  Hypothesis Ep : coord p = (S (nrow x), noff x / 2).
+  Hypothesis Etp : ntree p = ntree x.
+  Hypothesis Ets : ntree sb = ntree x.
+  Variable bsb : bool.
+  Variable nd3 : nodemap H.
+  Variable ca3 : cachemap H.
+  Hypothesis Hvsb : nodes_get (ms_nodes m) (gp (ms_total m) (nrow sb) (noff sb)) = Some (nhash sb, bsb).
+  Hypothesis M : moved HO (ms_total m) (N.of_nat (nrow x)) (noff x) (ms_nodes m) (ms_cached m)
+                   (nhash sb, bsb) nd3 ca3.
+  Hypothesis Hfull : ms_full m = false.
+  Hypothesis HT2 : Tidy2 H HO s Rn m.
+
+  Notation lay := (layout HO s).
+  Notation s' := (kill HO L s).
+  Notation lay' := (layout HO (kill HO L s)).
+  Notation T := (ms_total m).
+  Notation N0 := (ms_nodes m).
+  Notation rd := (nrow x).
+  Notation od := (noff x).
+  Notation rdN := (N.of_nat (nrow x)).
+  Notation Pc := (S (nrow x), noff x / 2).
+  Notation sbc := (nrow x, N.lxor (noff x) 1).
+  Notation fl := (S (nrow x) =? ntree x)%nat.
+  Notation J := (ntree x - S (nrow x))%nat.
+  Notation Rn' := (filter (fun h => negb (memH HO h L)) Rn).
+  Notation nd4 := (updateHashes HO (ms_n m) (ms_total m) (ms_full m)
+                     (gp (ms_total m) (nrow x) (noff x)) (nhash sb) nd3).
+  Notation m4 := (mkM nd4 ca3 (ms_n m) (ms_total m) (ms_full m)).
+  Notation pU := (posU (ms_total m) (N.of_nat (nrow x)) (noff x)).
+  Notation pS := (posS (ms_total m) (N.of_nat (nrow x)) (noff x)).
+  Notation y0 := (upn H (nrow x) (S (nrow x) =? ntree x)%nat sb).
+
+  Definition t_I4 := st_Inv H HO s Rc Rn m I L x Hx Hxr Hdel HLc z Hz Lz Uz Rz p sb Hp Hsb Hsbr Hpl
+                       Esb Ep Etp Ets bsb nd3 ca3 Hvsb M.
+  Definition t_sum := sum_all H HO s Rc Rn m I L x Hx Hxr Hdel HLc z Hz Lz Uz Rz p sb Hp Hsb Hsbr Hpl
+                       Esb Ep Etp Ets bsb nd3 ca3 M.
+  Definition t_new := new_node H HO s Rc Rn m I L x Hx Hxr Hdel HLc z Lz p sb Hp Hsb Hsbr Hpl Esb Ep Etp Ets.
+
+  Lemma t_n63' : N.of_nat (length (kill HO L s)) <= 2 ^ 63.
+  Proof. exact (pi_n63 H HO _ Rc Rn' _ t_I4). Qed.
+  Lemma t_n63 : N.of_nat (length s) <= 2 ^ 63. Proof. exact (pi_n63 H HO s Rc Rn m I). Qed.
+  Lemma t_Tlo : TreeRows (N.of_nat (length s)) <= T. Proof. exact (pi_Tlo H HO s Rc Rn m I). Qed.
+  Lemma t_rd : rdN < T.
+  Proof. destruct (pi_valid H HO s Rc Rn m I p Hp) as [A _]. destruct (coord_eq _ _ _ Ep) as [Er _]. lia. Qed.
+  Lemma t_od : od < 2 ^ (T - rdN). Proof. exact (proj2 (pi_valid H HO s Rc Rn m I x Hx)). Qed.
+
+  Lemma t_inj' a b : In a lay' -> In b lay' -> gp T (nrow a) (noff a) = gp T (nrow b) (noff b) -> a = b.
+  Proof. exact (pi_inj H HO _ Rc Rn' _ t_I4 a b). Qed.
+
+  Lemma t_ref_other y : In y lay -> ~ under Pc (coord y) -> ~ under (coord y) Pc -> In y lay'.
+  Proof. intros Hy. exact (proj1 (kill_inner H HO s L x Hx Hdel Hxr y Hy)). Qed.
+  Lemma t_ref_sb y : In y lay -> under sbc (coord y) -> In (upn H rd fl y) lay'.
+  Proof. intros Hy. exact (proj1 (proj2 (kill_inner H HO s L x Hx Hdel Hxr y Hy))). Qed.
+
+  Lemma t_upn_coord y : coord (upn H rd fl y) = liftc rd (coord y).
+  Proof. reflexivity. Qed.
+
+  Lemma t_y0 : In y0 lay' /\ coord y0 = Pc /\ gp T (nrow y0) (noff y0) = gpos T (rdN + 1) (od / 2).
+  Proof.
+    assert (Hin : In y0 lay') by (apply t_ref_sb; [exact Hsb|rewrite Esb; apply under_refl]).
+    assert (Ec : coord y0 = Pc).
+    { rewrite t_upn_coord, Esb. unfold liftc. cbn [fst snd]. rewrite Nat.sub_diag. f_equal.
+      unfold rmbit. cbn [N.of_nat]. rewrite N.add_0_l, N.pow_1_r, N.pow_0_r, N.mul_1_r, N.mod_1_r, N.add_0_r.
+      apply lxor1_half. }
+    split; [exact Hin|]. split; [exact Ec|]. destruct (coord_eq _ _ _ Ec) as [Er Eo]. rewrite Er, Eo.
+    unfold gp. f_equal. lia.
+  Qed.
+
+  (** the chain above the parent, in the new layout *)
+  Lemma t_chain_E k y' : (k < J)%nat -> In y' lay' ->
+    (coord y' = ((S rd + k)%nat, ao H x k) \/ coord y' = sibc ((S rd + k)%nat, ao H x k)) ->
+    nroot y0 = false /\ (coord y' = coord y0 \/ coord y' = sibc (coord y0) \/ Ex H HO (kill HO L s) y0 (coord y')).
+  Proof.
+    intros Hk Hy' Hc. destruct t_y0 as (Hy0 & Ec0 & _).
+    assert (Hfl : nroot y0 = false).
+    { unfold upn. cbn [nroot]. destruct (coord_eq _ _ _ Esb) as [Er _]. rewrite Er, Nat.eqb_refl. cbn [andb].
+      apply Nat.eqb_neq. lia. }
+    split; [exact Hfl|]. rewrite Ec0. destruct (Nat.eq_dec k 0) as [->|Hk0].
+    - unfold ao in Hc. cbn [N.of_nat] in Hc. rewrite N.pow_0_r, N.div_1_r, Nat.add_0_r in Hc.
+      destruct Hc as [-> | ->]; auto.
+    - right. right. destruct (t_new k ltac:(lia)) as (a & Ha & Eca & _ & _ & Hin).
+      destruct (Hin ltac:(lia)) as [_ Ra]. exists a. split; [exact Ha|]. split.
+      + rewrite Ra. apply Nat.eqb_neq. lia.
+      + split; [|split].
+        * rewrite Eca, Ec0. split; cbn [fst snd]; [lia|]. unfold ao, p2. f_equal. f_equal. lia.
+        * destruct (coord_eq _ _ _ Eca) as [Er _]. destruct (coord_eq _ _ _ Ec0) as [Er0 _]. lia.
+        * rewrite Eca. exact Hc.
+  Qed.
+
+  (** where a stored binding of the new node map comes from *)
+  Lemma t_src y' h b : In y' lay' -> nodes_get nd4 (gp T (nrow y') (noff y')) = Some (h, b) ->
+    (exists k, (1 <= k)%nat /\ (k <= J)%nat /\ coord y' = ((S rd + k)%nat, ao H x k) /\ b = ms_full m) \/
+    (y' = y0 /\ b = bsb) \/
+    (exists yo, In yo lay /\ under sbc (coord yo) /\ (nrow yo < rd)%nat /\ y' = upn H rd fl yo /\
+                nodes_get N0 (gp T (nrow yo) (noff yo)) = Some (h, b)) \/
+    (exists yo, In yo lay /\ ~ under Pc (coord yo) /\ ~ under (coord yo) Pc /\ y' = yo /\
+                nodes_get N0 (gp T (nrow yo) (noff yo)) = Some (h, b)).
+  Proof.
+    intros Hy' E. destruct t_sum as (_ & _ & _ & _ & _ & S5). destruct t_y0 as (Hy0 & Ec0 & Eg0).
+    pose proof t_rd as Hrd. pose proof t_od as Hod. pose proof (i_T63 I) as HT.
+    destruct (S5 _ _ E) as [(k & A & B & Ep' & _ & Ev)|[E3 Hno]].
+    - left. exists k. injection Ev as _ ->. split; [exact A|]. split; [exact B|]. split; [|reflexivity].
+      destruct (t_new k B) as (a & Ha & Eca & _).
+      rewrite <- (apos_node H HO (kill HO L s) m x k a Ha Eca) in Ep'.
+      rewrite (t_inj' y' a Hy' Ha Ep'). exact Eca.
+    - right.
+      assert (Hnr : isRootPositionTotalRows (gpos T rdN od) (ms_n m) T = false)
+        by exact (si_notroot H HO s Rc Rn m I x Hx Hxr).
+      destruct (moved_src H HO (ms_n m) T rdN od HT Hrd Hod N0 (ms_cached m) (nhash sb, bsb) Hnr
+                  (si_uniq H HO s Rc Rn m I) nd3 ca3 M _ _ E3)
+        as [[Epar Ev]|[(j & c & Hj1 & Hj & Hc & Epu & Es)|[E0 Hout]]].
+      + left. injection Ev as _ ->. split; [|reflexivity]. apply (t_inj' y' y0 Hy' Hy0). congruence.
+      + right. left. destruct (i_true I _ _ _ Es) as (yo & Hyo & Eyo & _).
+        destruct (pi_valid H HO s Rc Rn m I yo Hyo) as [A B]. unfold gp in Eyo. symmetry in Eyo.
+        destruct (cp_S_inv T rd od HT Hrd Hod (nrow yo) (noff yo) j c A B ltac:(lia) Hc Eyo) as [Uy Ery].
+        exists yo. split; [exact Hyo|]. split; [exact Uy|]. split; [lia|]. split.
+        * apply (t_inj' y' _ Hy' (t_ref_sb yo Hyo Uy)). rewrite Epu.
+          destruct (cp_S T rd od HT Hrd Hod (nrow yo) (noff yo) Uy) as (j' & c' & Hj' & Hc' & _ & E1 & E2).
+          unfold upn. cbn [nrow noff]. unfold gp. rewrite E2. rewrite Eyo in E1.
+          destruct (N.eq_dec j j') as [<-|Hne].
+          -- rewrite (posS_inj T rdN od HT Hrd Hod j c c' ltac:(lia) Hc Hc' E1). reflexivity.
+          -- exfalso. exact (posS_row_neq T rdN od HT Hrd Hod j c j' c' ltac:(lia) Hc Hj' Hc' Hne E1).
+        * unfold gp. rewrite Eyo. exact Es.
+      + right. right. destruct (i_true I _ _ _ E0) as (yo & Hyo & Eyo & _).
+        assert (Hn1 : ~ under Pc (coord yo)).
+        { intros U. destruct (pi_valid H HO s Rc Rn m I yo Hyo) as [A B].
+          assert (Hcd : coord yo = Pc \/ coord yo <> Pc).
+          { destruct (Nat.eq_dec (nrow yo) (S rd)) as [Er|Er]; [|right; intros C; apply Er; exact (f_equal fst C)].
+            destruct (N.eq_dec (noff yo) (od / 2)) as [Eo|Eo]; [left; unfold coord; congruence|].
+            right. intros C. apply Eo. exact (f_equal snd C). }
+          destruct Hcd as [Ec|Hne].
+          - destruct (coord_eq _ _ _ Ec) as [Er Eo]. apply (Hout 0 0); [lia|cbn; lia|].
+            rewrite Eyo, Er, Eo. exact (cp_U0 T rd od HT Hrd Hod).
+          - destruct (cp_U T rd od HT Hrd Hod (nrow yo) (noff yo) U Hne) as (j & c & Hj1 & Hj & Hc' & Ec).
+            apply (Hout j c Hj Hc'). rewrite Eyo. exact Ec. }
+        assert (Hn2 : ~ under (coord yo) Pc).
+        { intros U. destruct U as [Hle Eo]. unfold coord in Hle, Eo. cbn [fst snd] in Hle, Eo.
+          pose proof (ng_same_tree H HO s yo p Hyo Hp ltac:(rewrite Ep; split; [exact Hle|exact Eo])) as Et.
+          pose proof (node_row_le_tree H HO s yo Hyo) as Hrt.
+          assert (Hk1 : (1 <= nrow yo - S rd)%nat).
+          { destruct (Nat.eq_dec (nrow yo) (S rd)) as [Er|]; [|lia]. exfalso. apply Hn1.
+            rewrite Er, Nat.sub_diag, p2_0, N.div_1_r in Eo. unfold coord. rewrite Er, <- Eo. apply under_refl. }
+          apply (Hno (nrow yo - S rd)%nat Hk1 ltac:(lia)). rewrite Eyo. unfold apos, ao. unfold p2 in Eo.
+          rewrite Eo. f_equal. lia. }
+        exists yo. split; [exact Hyo|]. split; [exact Hn1|]. split; [exact Hn2|]. split.
+        * apply (t_inj' y' yo Hy' (t_ref_other yo Hyo Hn1 Hn2)). exact Eyo.
+        * rewrite <- Eyo. exact E0.
+  Qed.
+
+  Lemma t_notL w : In w lay -> nleaf w = true -> ~ under (coord x) (coord w) -> memH HO (nhash w) L = false.
+  Proof.
+    intros Hw Lw Hn. destruct (memH HO (nhash w) L) eqn:E; [|reflexivity].
+    exfalso. apply Hn. apply (Hdel w Hw Lw). exact E.
+  Qed.
+
+  Lemma t_sb_not_x c : under sbc c -> ~ under (coord x) c.
+  Proof.
+    intros Us Ux. destruct Us as [Hr1 E1], Ux as [_ E2]. unfold coord in E2. cbn [fst snd] in *.
+    rewrite E1 in E2. pose proof (lxor_1 od) as Hx'. destruct (N.even od) eqn:Ev; [lia|].
+    pose proof (odd_nz _ Ev). lia.
+  Qed.
+
+  Lemma t_x_under_P : under Pc (coord x). Proof. exact (proj2 (under_sib_par rd od)). Qed.
+  Lemma t_sb_under_P c : under sbc c -> under Pc c.
+  Proof. intros U. exact (under_trans _ _ _ (proj1 (under_sib_par rd od)) U). Qed.
+
+  Lemma t_Rn' w : In w lay -> nleaf w = true -> In (nhash w) Rn -> ~ under (coord x) (coord w) ->
+    In (nhash w) Rn'.
+  Proof. intros Hw Lw Hh Hn. apply filter_In. split; [exact Hh|]. rewrite (t_notL w Hw Lw Hn). reflexivity. Qed.
+
+  (** a remembered leaf below an untouched node stays below it *)
+  Lemma t_onp_other c : ~ under Pc c -> ~ under c Pc -> onp H HO s Rn c -> onp H HO (kill HO L s) Rn' c.
+  Proof.
+    intros N1 N2 (w & Hw & Lw & Hh & Uw). destruct (other_below _ _ _ N1 N2 Uw) as [M1 M2].
+    exists w. split; [exact (t_ref_other w Hw M1 M2)|]. split; [exact Lw|]. split; [|exact Uw].
+    apply (t_Rn' w Hw Lw Hh). intros Ux. apply M1. exact (under_trans _ _ _ t_x_under_P Ux).
+  Qed.
+
+  (** ... and one below the sibling moves up with it *)
+  Lemma t_onp_sb c : under sbc c -> onp H HO s Rn c -> onp H HO (kill HO L s) Rn' (liftc rd c).
+  Proof.
+    intros Uc (w & Hw & Lw & Hh & Uw). pose proof (under_trans _ _ _ Uc Uw) as Usw.
+    exists (upn H rd fl w). split; [exact (t_ref_sb w Hw Usw)|]. split; [exact Lw|]. split.
+    - exact (t_Rn' w Hw Lw Hh (t_sb_not_x _ Usw)).
+    - rewrite t_upn_coord. exact (lift_under rd od _ _ Uc Usw Uw).
+  Qed.
+
+  Theorem t_tidy4 : tidy2x H HO (kill HO L s) Rn' m4
+    (fun c => nroot y0 = false /\ (c = coord y0 \/ c = sibc (coord y0) \/ Ex H HO (kill HO L s) y0 c)).
+  Proof.
+    destruct HT2 as [T1 T2]. destruct t_y0 as (Hy0 & Ec0 & Eg0).
+    pose proof t_n63 as Hn63. pose proof t_Tlo as HTlo. pose proof (i_T63 I) as HT.
+    assert (Hrt : (rd < ntree x)%nat) by (apply (nonroot_iff_row H HO s Hn63 x Hx); exact Hxr).
+    split; cbn [ms_nodes ms_total].
+    - (* the flag *)
+      intros y' h Hy' E. destruct (t_src y' h true Hy' E)
+        as [(k & _ & _ & _ & Eb)|[[-> Eb]|[(yo & Hyo & Uy & Hlt & -> & Eo)|(yo & Hyo & N1 & N2 & -> & Eo)]]].
+      + rewrite Hfull in Eb. discriminate.
+      + subst bsb. destruct (T1 sb _ Hsb Hvsb) as [Ls Hh]. split; [exact Ls|].
+        apply (t_Rn' sb Hsb Ls Hh). apply t_sb_not_x. rewrite Esb. apply under_refl.
+      + destruct (T1 yo _ Hyo Eo) as [Lo Hh]. split; [exact Lo|]. exact (t_Rn' yo Hyo Lo Hh (t_sb_not_x _ Uy)).
+      + destruct (T1 yo _ Hyo Eo) as [Lo Hh]. split; [exact Lo|]. apply (t_Rn' yo Hyo Lo Hh).
+        intros Ux. apply N1. exact (under_trans _ _ _ t_x_under_P Ux).
+    - (* what is stored *)
+      intros y' Hy' HnE Hst.
+      destruct (nodes_get nd4 (gp T (nrow y') (noff y'))) as [[h b]|] eqn:E; [clear Hst|congruence].
+      destruct (t_src y' h b Hy' E)
+        as [(k & Hk1 & Hk & Ec & _)|[[-> _]|[(yo & Hyo & Uy & Hlt & -> & Eo)|(yo & Hyo & N1 & N2 & -> & Eo)]]].
+      + (* a node of the chain *)
+        destruct (Nat.eq_dec k J) as [->|Hne].
+        * left. destruct (t_new J (le_n _)) as (a & Ha & Eca & _ & _ & Hin).
+          destruct (Hin Hk1) as [_ Ra]. rewrite Nat.eqb_refl in Ra.
+          rewrite (ng_coord_eq H HO _ y' a Hy' Ha ltac:(congruence)). exact Ra.
+        * exfalso. apply HnE. apply (t_chain_E k y' ltac:(lia) Hy'). left. exact Ec.
+      + (* the node on the parent's place *)
+        destruct (nroot y0) eqn:R0; [left; exact R0|]. exfalso. apply HnE. auto.
+      + (* a node that has moved up *)
+        assert (Hso : nodes_get N0 (gp T (nrow yo) (noff yo)) <> None) by (rewrite Eo; discriminate).
+        destruct (T2 yo Hyo (fun C => C) Hso) as [Ro|[Ho|Ho]].
+        * exfalso. rewrite <- Esb in Uy.
+          exact (ng_root_top H HO s T Hn63 HTlo HT sb yo Hsb Hyo Hsbr Ro Uy).
+        * right. left. rewrite t_upn_coord. exact (t_onp_sb _ Uy Ho).
+        * right. right. rewrite t_upn_coord.
+          destruct (lift_sib rd od (coord yo) Uy ltac:(unfold coord; cbn [fst]; exact Hlt)) as [Us El].
+          rewrite <- El. exact (t_onp_sb _ Us Ho).
+      + (* a node that has not moved *)
+        assert (Hso : nodes_get N0 (gp T (nrow yo) (noff yo)) <> None) by (rewrite Eo; discriminate).
+        destruct (T2 yo Hyo (fun C => C) Hso) as [Ro|[Ho|Ho]].
+        * left. exact Ro.
+        * right. left. exact (t_onp_other _ N1 N2 Ho).
+        * destruct (nroot yo) eqn:Ryo; [left; exact Ryo|]. right. right.
+          destruct (ng_family H HO s yo Hyo Ryo) as (py & ys & Hpy & Hys & Rys & _ & Eys & Epy & _).
+          assert (Ecs : sibc (coord yo) = coord ys) by (rewrite Eys; reflexivity).
+          rewrite Ecs in Ho |- *.
+          (* the sibling is untouched as well, or [yo] is an exception *)
+          assert (M1 : ~ under Pc (coord ys)).
+          { intros U. apply N1. destruct (Nat.eq_dec (nrow ys) (S rd)) as [Er|Er].
+            - (* the sibling is the parent: [yo] is beside it *)
+              exfalso. assert (Ecp : coord ys = Pc).
+              { destruct U as [_ Eo']. unfold coord in *. cbn [fst snd] in *.
+                rewrite Er, Nat.sub_diag, p2_0, N.div_1_r in Eo'. congruence. }
+              destruct (Nat.eq_dec J 0) as [HJ|HJ].
+              + rewrite <- Ep in Ecp. rewrite (ng_coord_eq H HO s ys p Hys Hp Ecp) in Rys.
+                assert (Rp : nroot p = true) by (apply (root_iff_row H HO s p Hp); destruct (coord_eq _ _ _ Ep) as [Epr _]; lia).
+                congruence.
+              + apply HnE. apply (t_chain_E 0 yo ltac:(lia) Hy'). right.
+                unfold ao. cbn [N.of_nat]. rewrite N.pow_0_r, N.div_1_r, Nat.add_0_r.
+                rewrite <- Ecp, <- Ecs, sibc_invol. reflexivity.
+            - rewrite <- (sibc_invol (coord yo)), Ecs. change (coord ys) with (nrow ys, noff ys).
+              apply under_child_sib; [exact U|]. destruct U as [Hle _]. unfold coord in *. cbn [fst] in *. lia. }
+          assert (M2 : ~ under (coord ys) Pc).
+          { intros U. destruct (coord_eq _ _ _ Eys) as [Esr Eso].
+            destruct U as [Hle Eo']. unfold coord in Hle, Eo'. cbn [fst snd] in Hle, Eo'.
+            destruct (Nat.eq_dec (nrow ys) (S rd)) as [Er|Er].
+            { apply M1. rewrite Er, Nat.sub_diag, p2_0, N.div_1_r in Eo'. unfold coord. rewrite Er, <- Eo'. apply under_refl. }
+            pose proof (ng_same_tree H HO s ys p Hys Hp ltac:(rewrite Ep; split; [exact Hle|exact Eo'])) as Et.
+            assert (Hlt' : (nrow ys < ntree ys)%nat) by (apply (nonroot_iff_row H HO s Hn63 ys Hys); exact Rys).
+            apply HnE. apply (t_chain_E (nrow ys - S rd) yo ltac:(lia) Hy'). right.
+            rewrite <- (sibc_invol (coord yo)), Ecs. f_equal. unfold coord, ao. unfold p2 in Eo'. rewrite Eo'.
+            f_equal. lia. }
+          exact (t_onp_other _ M1 M2 Ho).
+  Qed.
+
+  (** the state after [forgetUnneededDel] *)
+  Theorem t_tidy5 :
+    Tidy2 H HO (kill HO L s) Rn'
+      (mkM (forgetUnneededDel HO (ms_n m) T (gp T (nrow x) (noff x)) nd4) ca3 (ms_n m) T (ms_full m)).
+  Proof.
+    pose proof t_I4 as I4. pose proof t_tidy4 as T4. set (N4 := nd4) in *. clearbody N4.
+    destruct t_y0 as (Hy0 & _ & Eg0).
+    exact (fud_from_del_tidy H HO _ Rc Rn' N4 ca3 (ms_n m) T (ms_full m) rdN od y0 I4 Hy0 t_rd t_od Eg0
+             (si_notroot H HO s Rc Rn m I x Hx Hxr) T4).
+  Qed.
+End StepTidy.
+
+(** * 8. [removeSingle] on any node keeps a partial forest tidy *)
+Section NodeTidy.
+  Variable H : Type.
+  Variable HO : ops H.
+  Hypothesis HOK : ops_ok HO.
+  Notation keep L := (fun h => negb (memH HO h L)).
+
+  (** the node has a sibling *)
+  Theorem removeSingle_inner_tidy s Rc Rn m L x z : Inv2 HO s Rc Rn m ->
+    ms_full m = false -> Tidy2 H HO s Rn m ->
+    In x (layout HO s) -> nroot x = false ->
+    (forall y, In y (layout HO s) -> nleaf y = true ->
+               (memH HO (nhash y) L = true <-> under (coord x) (coord y))) ->
+    (forall y, In y (layout HO s) -> nleaf y = true -> under (coord x) (coord y) -> ~ In (nhash y) Rc) ->
+    In z (layout HO s) -> nleaf z = true -> under (coord x) (coord z) -> In (nhash z) Rn ->
+    exists nd' ca',
+      removeSingle HO (ms_n m) (ms_total m) (ms_full m) (gp (ms_total m) (nrow x) (noff x))
+        (ms_nodes m, ms_cached m) = (nd', ca') /\
+      Inv2 HO (kill HO L s) Rc (filter (keep L) Rn) (mkM nd' ca' (ms_n m) (ms_total m) (ms_full m)) /\
+      Tidy2 H HO (kill HO L s) (filter (keep L) Rn) (mkM nd' ca' (ms_n m) (ms_total m) (ms_full m)).
+  Proof.
+    intros I Hfull HT2 Hx Hxr Hdel HLc Hz Lz Uz Rz.
+    destruct (ng_family H HO s x Hx Hxr) as (p & sb & Hp & Hsb & Hsbr & Hpl & Esb & Ep & Etp & Ets & _).
+    pose proof (si_rd H HO s Rc Rn m I L x Hx Hxr Hdel HLc z Lz) as Hrd.
+    pose proof (si_od H HO s Rc Rn m I x Hx) as Hod.
+    pose proof (si_rd_tree H HO s Rc Rn m I x Hx Hxr) as Hrt.
+    pose proof (si_sib_stored H HO s Rc Rn m I L x Hx Hxr Hdel HLc z Hz Lz Uz Rz 0 ltac:(lia)) as Hs.
+    rewrite Nat.add_0_r in Hs. cbn [N.of_nat] in Hs. rewrite N.pow_0_r, N.div_1_r in Hs.
+    destruct (coord_eq _ _ _ Esb) as [Esr Eso].
+    assert (Eg : gp (ms_total m) (nrow x) (N.lxor (noff x) 1) = gp (ms_total m) (nrow sb) (noff sb))
+      by (rewrite Esr, Eso; reflexivity).
+    rewrite Eg in Hs.
+    destruct (nodes_get (ms_nodes m) (gp (ms_total m) (nrow sb) (noff sb))) as [[h b]|] eqn:Evs; [clear Hs|congruence].
+    pose proof (si_stored_node H HO s Rc Rn m I sb (h, b) Hsb Evs) as Eh. cbn [fst] in Eh. subst h.
+    assert (Evs' : nodes_get (ms_nodes m) (gpos (ms_total m) (N.of_nat (nrow x)) (N.lxor (noff x) 1))
+                   = Some (nhash sb, b)).
+    { rewrite <- Evs. unfold gp. rewrite Esr, Eso. reflexivity. }
+    destruct (removeSingle_moves H HO HOK (ms_n m) (ms_total m) (N.of_nat (nrow x)) (noff x) (ms_full m)
+                (i_T63 I) Hrd Hod (ms_nodes m) (ms_cached m) (nhash sb, b) (i_keys I) (i_ckeys I)
+                (si_notroot H HO s Rc Rn m I x Hx Hxr) Evs' (si_uniq H HO s Rc Rn m I))
+      as (nd3 & ca3 & M & Eq).
+    eexists. exists ca3. split; [exact Eq|]. cbn [fst]. split.
+    - exact (st_fud H HO s Rc Rn m I L x Hx Hxr Hdel HLc z Hz Lz Uz Rz p sb Hp Hsb Hsbr Hpl Esb Ep Etp Ets
+               b nd3 ca3 Evs M).
+    - exact (t_tidy5 H HO s Rc Rn m I L x Hx Hxr Hdel HLc z Hz Lz Uz Rz p sb Hp Hsb Hsbr Hpl Esb Ep Etp Ets
+               b nd3 ca3 Evs M Hfull HT2).
+  Qed.
+
+  (** the node is a root *)
+  Theorem removeSingle_root_tidy s Rc Rn m L x : Inv2 HO s Rc Rn m ->
+    ms_full m = false -> Tidy2 H HO s Rn m ->
+    In x (layout HO s) -> nroot x = true ->
+    (forall y, In y (layout HO s) -> nleaf y = true ->
+               (memH HO (nhash y) L = true <-> under (coord x) (coord y))) ->
+    (forall y, In y (layout HO s) -> nleaf y = true -> under (coord x) (coord y) -> ~ In (nhash y) Rc) ->
+    Tidy2 H HO (kill HO L s) (filter (keep L) Rn)
+      (mkM (nodes_put (gp (ms_total m) (nrow x) (noff x)) (op_empty HO, ms_full m)
+              (forgetBelow (ms_total m) (gp (ms_total m) (nrow x) (noff x)) (ms_nodes m)))
+           (ms_cached m) (ms_n m) (ms_total m) (ms_full m)).
+  Proof.
+    intros I Hfull [T1 T2] Hx Rx Hdel HLc.
+    pose proof (sr_Inv H HO s Rc Rn m I L x Hx Rx Hdel HLc) as I'.
+    pose proof (pi_n63 H HO s Rc Rn m I) as Hn63. pose proof (pi_Tlo H HO s Rc Rn m I) as HTlo.
+    pose proof (i_T63 I) as HT.
+    assert (Hsame : forall y' yo, In y' (layout HO (kill HO L s)) -> In yo (layout HO s) ->
+              ~ under (coord x) (coord yo) ->
+              gp (ms_total m) (nrow y') (noff y') = gp (ms_total m) (nrow yo) (noff yo) -> y' = yo).
+    { intros y' yo Hy' Hyo Hn E.
+      exact (pi_inj H HO _ Rc _ _ I' y' yo Hy' (sr_keep H HO s L x Hx Rx Hdel yo Hyo Hn) E). }
+    assert (Hw : forall c, ~ under (coord x) c -> (forall w, In w (layout HO s) -> under c (coord w) ->
+                   ~ under (coord x) (coord w)) ->
+              onp H HO s Rn c -> onp H HO (kill HO L s) (filter (keep L) Rn) c).
+    { intros c _ Hno (w & Hwl & Lw & Hh & Uw). pose proof (Hno w Hwl Uw) as Hnw.
+      exists w. split; [exact (sr_keep H HO s L x Hx Rx Hdel w Hwl Hnw)|]. split; [exact Lw|]. split; [|exact Uw].
+      apply filter_In. split; [exact Hh|]. destruct (memH HO (nhash w) L) eqn:Em; [|reflexivity].
+      exfalso. apply Hnw. apply (Hdel w Hwl Lw). exact Em. }
+    split; cbn [ms_nodes ms_total].
+    - intros y' h Hy' E.
+      destruct (sr_src H HO s Rc Rn m I L x Hx Rx Hdel HLc _ _ E) as [[_ Ev]|(yo & Hyo & Hn & Ep & E0)].
+      + injection Ev as _ Ef. rewrite Hfull in Ef. discriminate.
+      + rewrite (Hsame y' yo Hy' Hyo Hn Ep). rewrite Ep in E0. destruct (T1 yo h Hyo E0) as [Lo Hh].
+        split; [exact Lo|]. apply filter_In. split; [exact Hh|].
+        destruct (memH HO (nhash yo) L) eqn:Em; [|reflexivity]. exfalso. apply Hn. apply (Hdel yo Hyo Lo). exact Em.
+    - intros y' Hy' _ Hst.
+      destruct (nodes_get _ (gp (ms_total m) (nrow y') (noff y'))) as [v|] eqn:E; [clear Hst|congruence].
+      destruct (sr_src H HO s Rc Rn m I L x Hx Rx Hdel HLc _ _ E) as [[Ep _]|(yo & Hyo & Hn & Ep & E0)].
+      + left. pose proof (sr_er H HO s L x Hx Rx Hdel) as Her.
+        rewrite (pi_inj H HO _ Rc _ _ I' y' _ Hy' Her Ep). reflexivity.
+      + rewrite (Hsame y' yo Hy' Hyo Hn Ep). rewrite Ep in E0.
+        assert (Hso : nodes_get (ms_nodes m) (gp (ms_total m) (nrow yo) (noff yo)) <> None) by (rewrite E0; discriminate).
+        assert (Hxno : forall a, In a (layout HO s) -> under (coord a) (coord x) -> a = x).
+        { intros a Ha U. pose proof (ng_same_tree H HO s a x Ha Hx U) as Et.
+          pose proof (node_row_le_tree H HO s a Ha) as Hle. apply (root_iff_row H HO s x Hx) in Rx.
+          destruct U as [Hr Eo]. unfold coord in *. cbn [fst snd] in *.
+          assert (Er : nrow a = nrow x) by lia. rewrite Er, Nat.sub_diag, p2_0, N.div_1_r in Eo.
+          apply (ng_coord_eq H HO s a x Ha Hx). unfold coord. congruence. }
+        destruct (T2 yo Hyo (fun C => C) Hso) as [Ro|[Ho|Ho]].
+        * left. exact Ro.
+        * right. left. apply (Hw _ Hn); [|exact Ho]. intros w Hwl Uw Ux.
+          destruct (le_ge_dec (nrow yo) (nrow x)) as [Hle|Hge].
+          -- apply Hn. exact (under_nested _ _ _ Uw Ux Hle).
+          -- apply Hn. rewrite (Hxno yo Hyo (under_nested _ _ _ Ux Uw Hge)). apply under_refl.
+        * destruct (nroot yo) eqn:Ryo; [left; exact Ryo|]. right. right.
+          destruct (ng_family H HO s yo Hyo Ryo) as (py & ys & Hpy & Hys & Rys & _ & Eys & _ & _ & Etys & _).
+          assert (Ecs : sibc (coord yo) = coord ys) by (rewrite Eys; reflexivity).
+          rewrite Ecs in Ho |- *.
+          assert (Hns : ~ under (coord x) (coord ys)).
+          { intros U. apply Hn. apply (ng_tree_root H HO s x yo Hx Hyo Rx).
+            rewrite <- Etys. exact (ng_same_tree H HO s x ys Hx Hys U). }
+          apply (Hw _ Hns); [|exact Ho]. intros w Hwl Uw Ux.
+          destruct (le_ge_dec (nrow ys) (nrow x)) as [Hle|Hge].
+          -- apply Hns. exact (under_nested _ _ _ Uw Ux Hle).
+          -- rewrite (Hxno ys Hys (under_nested _ _ _ Ux Uw Hge)) in Rys. congruence.
+  Qed.
+
+  (** any node *)
+  Theorem removeSingle_node_tidy s Rc Rn m L x z : Inv2 HO s Rc Rn m ->
+    ms_full m = false -> Tidy2 H HO s Rn m ->
+    In x (layout HO s) ->
+    (forall y, In y (layout HO s) -> nleaf y = true ->
+               (memH HO (nhash y) L = true <-> under (coord x) (coord y))) ->
+    (forall y, In y (layout HO s) -> nleaf y = true -> under (coord x) (coord y) -> ~ In (nhash y) Rc) ->
+    In z (layout HO s) -> nleaf z = true -> under (coord x) (coord z) -> In (nhash z) Rn ->
+    exists nd' ca',
+      removeSingle HO (ms_n m) (ms_total m) (ms_full m) (gp (ms_total m) (nrow x) (noff x))
+        (ms_nodes m, ms_cached m) = (nd', ca') /\
+      Inv2 HO (kill HO L s) Rc (filter (keep L) Rn) (mkM nd' ca' (ms_n m) (ms_total m) (ms_full m)) /\
+      Tidy2 H HO (kill HO L s) (filter (keep L) Rn) (mkM nd' ca' (ms_n m) (ms_total m) (ms_full m)).
+  Proof.
+    intros I Hfull HT2 Hx Hdel HLc Hz Lz Uz Rz. destruct (nroot x) eqn:Rx.
+    - exists (nodes_put (gp (ms_total m) (nrow x) (noff x)) (op_empty HO, ms_full m)
+                (forgetBelow (ms_total m) (gp (ms_total m) (nrow x) (noff x)) (ms_nodes m))),
+             (ms_cached m).
+      split; [|split; [exact (sr_Inv H HO s Rc Rn m I L x Hx Rx Hdel HLc)|
+                       exact (removeSingle_root_tidy s Rc Rn m L x I Hfull HT2 Hx Rx Hdel HLc)]].
+      unfold removeSingle. cbv zeta. cbn [fst snd].
+      pose proof (i_n I) as En. unfold num_leaves in En. rewrite En at 1.
+      rewrite (ng_isroot H HO s (ms_total m) (pi_n63 H HO s Rc Rn m I) (pi_Tlo H HO s Rc Rn m I) (i_T63 I) x Hx).
+      rewrite Rx. reflexivity.
+    - exact (removeSingle_inner_tidy s Rc Rn m L x z I Hfull HT2 Hx Rx Hdel HLc Hz Lz Uz Rz).
+  Qed.
+End NodeTidy.
+
+(** * 9. [remove] keeps a partial forest tidy *)
+Section RemoveTidy.
+  Variable H : Type.
+  Variable HO : ops H.
+  Hypothesis HOK : ops_ok HO.
+  Notation keep L := (fun h => negb (memH HO h L)).
+
+  Lemma remove_fold_tidy Rc : forall ys s Rn nd ca n T,
+    Inv2 HO s Rc Rn (mkM nd ca n T false) -> Tidy2 H HO s Rn (mkM nd ca n T false) ->
+    okseq H HO s Rc Rn ys ->
+    exists Lt nd' ca',
+      fold_left (fun st d => removeSingle HO n T false d st)
+                (map (fun y : node H => gp T (nrow y) (noff y)) ys) (nd, ca) = (nd', ca') /\
+      (forall w, In w (layout HO s) -> nleaf w = true ->
+         (memH HO (nhash w) Lt = true <-> exists y, In y ys /\ under (coord y) (coord w))) /\
+      Inv2 HO (kill HO Lt s) Rc (filter (keep Lt) Rn) (mkM nd' ca' n T false) /\
+      Tidy2 H HO (kill HO Lt s) (filter (keep Lt) Rn) (mkM nd' ca' n T false).
+  Proof.
+    induction ys as [|y1 rest IH]; intros s Rn nd ca n T I HT2 [Hok Hfop].
+    - exists [], nd, ca. split; [reflexivity|]. split.
+      + intros w _ _. cbn [memH]. split; [discriminate|]. intros (y & [] & _).
+      + rewrite (kill_nil H HO), (filter_keep_nil H HO). auto.
+    - pose proof (i_live_nd I) as Hnd.
+      destruct (Hok y1 (or_introl eq_refl)) as (Hy1 & (z & Hz & Lz & Uz & Rz) & Hc1).
+      set (L1 := leaves_under H HO s y1).
+      assert (Hdel1 : forall w, In w (layout HO s) -> nleaf w = true ->
+                (memH HO (nhash w) L1 = true <-> under (coord y1) (coord w))).
+      { intros w Hw Lw. apply (leaves_under_spec H HO HOK); assumption. }
+      destruct (removeSingle_node_tidy H HO HOK s Rc Rn _ L1 y1 z I eq_refl HT2 Hy1 Hdel1 Hc1 Hz Lz Uz Rz)
+        as (nd1 & ca1 & Eq & I1 & HT1).
+      cbn [ms_n ms_total ms_nodes ms_cached ms_full] in Eq, I1, HT1.
+      inversion Hfop as [|a l Hhead Htail]; subst a l.
+      rewrite Forall_forall in Hhead.
+      assert (Hok1 : okseq H HO (kill HO L1 s) Rc (filter (keep L1) Rn) rest).
+      { split; [|exact Htail]. intros y Hy.
+        destruct (Hok y (or_intror Hy)) as (Hyl & (zy & Hzy & Lzy & Uzy & Rzy) & Hcy).
+        pose proof (Hhead y Hy) as Hi. split; [|split].
+        - exact (kl_keep H HO s L1 y1 Hy1 Hdel1 y Hyl Hi y Hyl (under_refl _)).
+        - exists zy. split; [exact (kl_keep H HO s L1 y1 Hy1 Hdel1 y Hyl Hi zy Hzy Uzy)|].
+          split; [exact Lzy|]. split; [exact Uzy|]. apply filter_In. split; [exact Rzy|].
+          destruct (memH HO (nhash zy) L1) eqn:Em; [exfalso|reflexivity].
+          apply (Hdel1 zy Hzy Lzy) in Em. destruct Hi as (N1 & N2 & _ & Hr).
+          apply N2. exact (under_nested _ _ _ Em Uzy Hr).
+        - intros w' Hw' Lw' Uw'.
+          destruct (kl_leaf_below H HO s L1 y1 Hnd Hy1 Hdel1 y w' Hyl Hi Hw' Lw' Uw') as [Hwl _].
+          exact (Hcy w' Hwl Lw' Uw'). }
+      destruct (IH _ _ nd1 ca1 n T I1 HT1 Hok1) as (Ltr & nd' & ca' & Ef & Hspec & Ir & HTr).
+      exists (L1 ++ Ltr), nd', ca'. split; [|split; [|split]].
+      + cbn [map fold_left].
+        match goal with |- fold_left ?f ?l ?st = _ => replace st with (nd1, ca1) by (symmetry; exact Eq) end.
+        exact Ef.
+      + intros w Hw Lw. rewrite (memH_app H HO), orb_true_iff. split.
+        * intros [E1|Er].
+          -- exists y1. split; [left; reflexivity|]. apply (Hdel1 w Hw Lw), E1.
+          -- destruct (memH HO (nhash w) L1) eqn:E1.
+             { exists y1. split; [left; reflexivity|]. apply (Hdel1 w Hw Lw), E1. }
+             assert (Hl1 : In (Some (nhash w)) (kill HO L1 s)).
+             { apply kill_live. split; [exact (layout_leaf_live H HO s w Hw Lw)|exact E1]. }
+             destruct (live_leaf_in_layout H HO _ _ Hl1) as (w1 & Hw1 & Lw1 & Ew1).
+             rewrite <- Ew1 in Er. apply (Hspec w1 Hw1 Lw1) in Er as (y & Hy & Uy).
+             destruct (Hok y (or_intror Hy)) as (Hyl & _).
+             destruct (kl_leaf_below H HO s L1 y1 Hnd Hy1 Hdel1 y w1 Hyl (Hhead y Hy) Hw1 Lw1 Uy) as [Hw1l _].
+             rewrite (live_leaf_unique H HO s w1 w Hnd Hw1l Hw Lw1 Lw Ew1) in Uy.
+             exists y. split; [right; exact Hy|exact Uy].
+        * intros (y & [<-|Hy] & Uy).
+          -- left. apply (Hdel1 w Hw Lw), Uy.
+          -- right. destruct (Hok y (or_intror Hy)) as (Hyl & _).
+             pose proof (kl_keep H HO s L1 y1 Hy1 Hdel1 y Hyl (Hhead y Hy) w Hw Uy) as Hw1.
+             apply (Hspec w Hw1 Lw). exists y. auto.
+      + rewrite <- (kill_kill H HO), (filter_keep_app H HO). exact Ir.
+      + rewrite <- (kill_kill H HO), (filter_keep_app H HO). exact HTr.
+  Qed.
+
+  (** the deleted leaves: as [MapMutRemove.remove_leaves], with tidiness *)
+  Theorem remove_leaves_tidy s R nd ca n T xs dels targets proof :
+    MapMutRemove.Inv HO s R (mkM nd ca n T false) -> Tidy2 H HO s R (mkM nd ca n T false) -> NoDup xs ->
+    (forall x, In x xs -> In x (layout HO s) /\ nleaf x = true /\ In (nhash x) R) ->
+    (forall h, In h dels <-> exists x, In x xs /\ nhash x = h) ->
+    Permutation targets (map (npos (rows_of (num_leaves s))) xs) ->
+    exists m', mm_modify HO (mkM nd ca n T false) [] dels targets proof = Some m' /\
+               MapMutRemove.Inv HO (kill HO dels s) (filter (keep dels) R) m' /\
+               Tidy2 H HO (kill HO dels s) (filter (keep dels) R) m'.
+  Proof.
+    intros I HT2 Hnd Hxs Hdels Hperm. unfold MapMutRemove.Inv in *.
+    assert (Hp2 : Permutation (sortN targets) (map (npos (rows_of (num_leaves s))) xs)).
+    { eapply Permutation_trans; [apply pps_sortN_perm|exact Hperm]. }
+    destruct (Permutation_map_inv _ _ Hp2) as (ls & Els & Pls).
+    assert (Hls : forall x, In x ls -> In x (layout HO s)).
+    { intros x Hx. apply (Permutation_in _ (Permutation_sym Pls)) in Hx. apply Hxs, Hx. }
+    assert (Sls : StronglySorted (npl H s) ls).
+    { apply (sorted_nodes H HO); [exact Hls|exact (Permutation_NoDup Pls Hnd)|].
+      rewrite <- Els. apply pps_sortN_sorted. }
+    destruct (detwinned_general H HO s T (pi_n63 H HO s R R _ I) (pi_Tlo H HO s R R _ I) (i_T63 I)
+                xs ls Pls Sls) as (ys & Edt & Hys & Hcover & Hfop).
+    { intros x Hx. destruct (Hxs x Hx) as (A & B & _). auto. }
+    pose proof (translate_nodes H HO s R R _ ls I Hls) as Etr. rewrite <- Els in Etr.
+    cbn [ms_n ms_total ms_nodes ms_cached ms_full] in *.
+    pose proof (i_live_nd I) as Hlnd.
+    assert (Hall : forallb (cached_has HO ca) dels = true).
+    { apply forallb_forall. intros h Hh. apply Hdels in Hh as (x & Hx & <-).
+      destruct (Hxs x Hx) as (Hxl & Lx & Hr). unfold cached_has.
+      assert (E : cached_get HO ca (nhash x) = Some (gp T (nrow x) (noff x))).
+      { apply (i_cached I). split; [exact Hr|]. exists x. auto. }
+      cbn [ms_cached] in E. rewrite E. reflexivity. }
+    pose proof (uncache_Inv2 H HO HOK dels s R R nd ca n T false I) as I1.
+    assert (HT1 : Tidy2 H HO s R (mkM nd (fold_left (fun c h => cached_del HO h c) dels ca) n T false))
+      by exact HT2.
+    assert (Hdel_leaf : forall w, In w (layout HO s) -> nleaf w = true ->
+              (memH HO (nhash w) dels = true <-> In w xs)).
+    { intros w Hw Lw. rewrite (memH_In H HO HOK), Hdels. split.
+      - intros (x & Hx & E). destruct (Hxs x Hx) as (Hxl & Lx & _).
+        rewrite <- (live_leaf_unique H HO s x w Hlnd Hxl Hw Lx Lw E). exact Hx.
+      - intros Hx. exists w. auto. }
+    assert (Hok : okseq H HO s (filter (keep dels) R) R ys).
+    { split; [|exact Hfop]. intros y Hy. destruct (Hys y Hy) as (Hyl & z & Hz & Lz & Uz).
+      split; [exact Hyl|]. split.
+      - exists z. split; [exact Hz|]. split; [exact Lz|]. split; [exact Uz|].
+        assert (Hzx : In z xs) by (apply (Hcover z Hz Lz); exists y; auto).
+        apply Hxs, Hzx.
+      - intros w Hw Lw Uw Hin. apply filter_In in Hin as [_ Hm].
+        assert (Hwx : In w xs) by (apply (Hcover w Hw Lw); exists y; auto).
+        apply (Hdel_leaf w Hw Lw) in Hwx. rewrite Hwx in Hm. discriminate. }
+    destruct (remove_fold_tidy (filter (keep dels) R) ys s R nd _ n T I1 HT1 Hok)
+      as (Lt & nd' & ca' & Ef & Hspec & I2 & HT3).
+    assert (Ememb : forall h, In (Some h) s -> memH HO h Lt = memH HO h dels).
+    { intros h Hh. destruct (live_leaf_in_layout H HO s h Hh) as (w & Hw & Lw & <-).
+      pose proof (Hspec w Hw Lw) as S1. pose proof (Hcover w Hw Lw) as S2.
+      pose proof (Hdel_leaf w Hw Lw) as S3.
+      destruct (memH HO (nhash w) Lt), (memH HO (nhash w) dels); try reflexivity.
+      - assert (In w xs) by (apply S2, S1; reflexivity). assert (false = true) by (apply S3; assumption). discriminate.
+      - assert (In w xs) by (apply S3; reflexivity). assert (false = true) by (apply S1, S2; assumption). discriminate. }
+    rewrite (kill_ext H HO Lt dels s Ememb) in I2, HT3.
+    rewrite (filter_keep_ext H HO Lt dels R) in I2, HT3 by (intros h Hh; apply Ememb, (i_Rn I h Hh)).
+    exists (mkM nd' ca' n T false). split; [|split; [exact I2|exact HT3]].
+    unfold mm_modify, MapMut.remove. cbn [ms_n ms_total ms_nodes ms_cached ms_full].
+    rewrite Hall. cbn [negb]. rewrite Etr, Edt.
+    match goal with |- context [add_all _ _ _ _ _ ?st] =>
+      replace st with (nd', ca') by (symmetry; exact Ef) end.
+    reflexivity.
+  Qed.
+End RemoveTidy.
+
+(** * 10. Deletion blocks keep the invariant of [MapMutAdd]: all forests *)
+Section DeleteAll.
+  Variable H : Type.
+  Variable HO : ops H.
+  Hypothesis HOK : ops_ok HO.
+  Notation AInv := (MapMutAdd.Inv H HO).
+  Notation keep L := (fun h => negb (memH HO h L)).
+  Notation kn s R := (known (Vlay HO s) (RTlay HO s) R).
+
+  Lemma under_anc' (w : node H) (k : nat) : under ((nrow w + k)%nat, noff w / 2 ^ N.of_nat k) (coord w).
+  Proof. split; cbn [fst snd]; [unfold coord; cbn; lia|]. unfold coord, p2. cbn [fst snd]. f_equal. f_equal. lia. Qed.
+
+  (** "needed" of [MapMutAdd] for the coordinate of a node *)
+  Lemma needed_nneed s R y : N.of_nat (length s) <= 2 ^ 63 -> In y (layout HO s) ->
+    (needed (Vlay HO s) (RTlay HO s) R (nrow y) (noff y) <-> nneed H HO s R y).
+  Proof.
+    intros Hn63 Hy. pose proof (TreeRows_le_63 _ Hn63) as HT.
+    assert (Hk : forall c : node H, In c (layout HO s) ->
+              (kn s R (nrow c) (noff c) <-> onp H HO s R (coord c))).
+    { intros c Hc. rewrite (known_path H HO s R _ _ Hn63). split.
+      - intros (w & k & Hw & Lw & Hh & Er & Eo & _). exists w. split; [exact Hw|]. split; [exact Lw|].
+        split; [exact Hh|]. unfold coord. rewrite Er, Eo. exact (under_anc' w k).
+      - intros (w & Hw & Lw & Hh & U). exists w, (nrow c - nrow w)%nat.
+        pose proof (ng_same_tree H HO s c w Hc Hw U) as Et.
+        pose proof (node_row_le_tree H HO s c Hc) as Hle.
+        destruct U as [Hr Eo]. unfold coord in Hr, Eo. cbn [fst snd] in Hr, Eo. unfold p2 in Eo.
+        repeat split; try assumption; try lia. }
+    unfold needed, nneed. split.
+    - intros [(r & Hr & Rr & Er & Eo)|[K|[K Hn]]].
+      + left. rewrite <- (ng_coord_eq H HO s r y Hr Hy ltac:(unfold coord; congruence)). exact Rr.
+      + right. left. apply (Hk y Hy), K.
+      + destruct (nroot y) eqn:Ry; [left; reflexivity|]. right. right.
+        destruct (ng_family H HO s y Hy Ry) as (_ & ys & _ & Hys & _ & _ & Eys & _).
+        destruct (coord_eq _ _ _ Eys) as [Er Eo]. rewrite <- Er, <- Eo in K.
+        replace (sibc (coord y)) with (coord ys) by (rewrite Eys; reflexivity). apply (Hk ys Hys), K.
+    - intros [Ry|[K|K]].
+      + left. exists y. auto.
+      + right. left. apply (Hk y Hy), K.
+      + destruct (nroot y) eqn:Ry; [left; exists y; auto|]. right. right.
+        destruct (ng_family H HO s y Hy Ry) as (_ & ys & _ & Hys & Rys & _ & Eys & _).
+        destruct (coord_eq _ _ _ Eys) as [Er Eo].
+        replace (sibc (coord y)) with (coord ys) in K by (rewrite Eys; reflexivity).
+        rewrite <- Er, <- Eo. split; [apply (Hk ys Hys), K|].
+        intros (r & Hr & Rr & Err & Eor).
+        rewrite (ng_coord_eq H HO s r ys Hr Hys ltac:(unfold coord; congruence)) in Rr. congruence.
+  Qed.
+
+  Lemma Tidy_Tidy2 s R m : MapMutRemove.Inv HO s R m ->
+    Tidy (Vlay HO s) (RTlay HO s) R (ms_total m) (ms_nodes m) -> Tidy2 H HO s R m.
+  Proof.
+    intros I [T1 T2]. pose proof (pi_n63 H HO s R R m I) as Hn63. split.
+    - intros y h Hy E.
+      pose proof (si_stored_node H HO s R R m I y (h, true) Hy E) as Eh. cbn [fst] in Eh. subst h.
+      destruct (T1 (nrow y) (noff y) (nhash y) (nleaf y) (Vlay_node H HO s y Hy) E) as [A B]. auto.
+    - intros y Hy _ Hs. apply (needed_nneed s R y Hn63 Hy).
+      exact (T2 (nrow y) (noff y) (nhash y) (nleaf y) (Vlay_node H HO s y Hy) (fun C => C) Hs).
+  Qed.
+
+  Lemma Tidy2_Tidy s R m : N.of_nat (length s) <= 2 ^ 63 -> Tidy2 H HO s R m ->
+    Tidy (Vlay HO s) (RTlay HO s) R (ms_total m) (ms_nodes m).
+  Proof.
+    intros Hn63 [T1 T2]. split.
+    - intros r o h l (y & Hy & <- & <- & <- & <-) E. exact (T1 y _ Hy E).
+    - intros r o h l (y & Hy & <- & <- & _) _ Hs. apply (needed_nneed s R y Hn63 Hy).
+      exact (T2 y Hy (fun C => C) Hs).
+  Qed.
+
+  (** ** the lemma for the deletion blocks of a history *)
+  Theorem delete_leaves_AInv s R m xs dels targets proof : AInv s R m ->
+    (forall h a b, In (Some h) s -> h <> op_hash2 HO a b) ->
+    NoDup xs ->
+    (forall x, In x xs -> In x (layout HO s) /\ nleaf x = true /\ In (nhash x) R) ->
+    (forall h, In h dels <-> exists x, In x xs /\ nhash x = h) ->
+    Permutation targets (map (npos (rows_of (num_leaves s))) xs) ->
+    exists m', mm_modify HO m [] dels targets proof = Some m' /\
+               AInv (kill HO dels s) (filter (keep dels) R) m' /\
+               ms_n m' = ms_n m /\ ms_total m' = ms_total m /\ ms_full m' = ms_full m.
+  Proof.
+    intros I Hnn Hnd Hxs Hdels Hperm.
+    apply (delete_leaves_bridge H HO HOK s R m xs dels targets proof I Hnn Hnd Hxs Hdels Hperm).
+    intros Hfull m' E'. destruct m as [nd ca n T full]. cbn [ms_full] in Hfull. subst full.
+    pose proof (AInv_RInv H HO HOK s R nd ca n T false Hnn I) as IR.
+    assert (HT2 : Tidy2 H HO s R (mkM nd (dedupc H HO ca) n T false)).
+    { apply (Tidy_Tidy2 s R _ IR). exact (inv_tidy H HO s R _ I eq_refl). }
+    destruct (remove_leaves_tidy H HO HOK s R nd _ n T xs dels targets proof IR HT2 Hnd Hxs Hdels Hperm)
+      as (m0 & E0 & I0 & HT0).
+    assert (Ece : ceq H HO ca (dedupc H HO ca)) by (intros h; symmetry; apply dedupc_get, HOK).
+    assert (Dca : dupok H HO ca).
+    { intros h p Hin. pose proof (inv_g H HO _ _ _ I) as G. cbn [ms_total ms_nodes ms_cached] in G.
+      assert (Hk : In h (map fst ca)) by (apply in_map_iff; exists (h, p); auto).
+      destruct (cached_get_some_of_key H HO HOK _ _ Hk) as [p' Ep]. rewrite Ep. f_equal.
+      destruct (g_cpos G _ _ Hin) as (r & o & (x & Hx & <- & <- & Eh & Lx) & ->).
+      destruct (g_cpos G _ _ (cached_get_In H HO HOK _ _ _ Ep)) as (r' & o' & (x' & Hx' & <- & <- & Eh' & Lx') & ->).
+      rewrite (live_leaf_unique H HO s x x' (inv_nodup H HO _ _ _ I) Hx Hx' Lx Lx' ltac:(congruence)).
+      reflexivity. }
+    destruct (sim_modify H HO HOK nd ca (dedupc H HO ca) n T false dels targets proof m0 Ece Dca E0)
+      as (ca1 & E1 & _ & _).
+    rewrite E1 in E'. injection E' as <-. cbn [ms_total ms_nodes].
+    exact (Tidy2_Tidy _ _ m0 (pi_n63 H HO _ _ _ _ I0) HT0).
+  Qed.
+
+  (** the targets as the map forest reports them *)
+  Theorem delete_hashes_AInv s R m dels proof : AInv s R m ->
+    (forall h a b, In (Some h) s -> h <> op_hash2 HO a b) ->
+    NoDup dels -> (forall h, In h dels -> In h R) ->
+    exists m', mm_modify HO m [] dels (GetLeafHashPositions HO m dels) proof = Some m' /\
+               AInv (kill HO dels s) (filter (keep dels) R) m' /\
+               ms_n m' = ms_n m /\ ms_total m' = ms_total m /\ ms_full m' = ms_full m.
+  Proof.
+    intros I Hnn Hnd Hsub. pose proof (MapMutAdd.Inv_consistent H HO HOK s R m I) as Hc.
+    assert (Hpos : forall ds, (forall h, In h ds -> In h R) ->
+              exists ts, map (@nhash H) ts = ds /\
+                (forall x, In x ts -> In x (layout HO s) /\ nleaf x = true) /\
+                GetLeafHashPositions HO m ds = map (npos (rows_of (num_leaves s))) ts).
+    { induction ds as [|h ds IH]; intros Hs.
+      - exists []. split; [reflexivity|]. split; [intros y []|reflexivity].
+      - destruct (IH (fun h' Hh' => Hs h' (or_intror Hh'))) as (ts & Ets & Hts & Epos).
+        pose proof (Hs h (or_introl eq_refl)) as Hh.
+        destruct (cached_tracked H HO HOK s R m Hc h Hh) as (x & Hx & Ec).
+        destruct (find_leaf_spec H HO HOK _ _ _ Hx) as (Hxl & Lx & Ex).
+        exists (x :: ts). split; [cbn [map]; congruence|]. split.
+        + intros y [<-|Hy]; [auto|exact (Hts y Hy)].
+        + unfold GetLeafHashPositions in *. cbn [map]. rewrite Epos. f_equal.
+          unfold GetLeafPosition. rewrite Ec. exact (translate_node H HO s R m Hc x Hxl). }
+    destruct (Hpos dels Hsub) as (ts & Ets & Hts & Epos). rewrite Epos.
+    apply (delete_leaves_AInv s R m ts dels _ proof I Hnn).
+    - rewrite <- Ets in Hnd. exact (NoDup_map_inv _ _ Hnd).
+    - intros x Hx. destruct (Hts x Hx) as [A B]. split; [exact A|]. split; [exact B|].
+      apply Hsub. rewrite <- Ets. apply in_map, Hx.
+    - intros h. rewrite <- Ets, in_map_iff. split; intros (x & A & B); exists x; auto.
+    - apply Permutation_refl.
+  Qed.
+End DeleteAll.
+
+(** * 11. A whole block: the deletions, then the additions *)
+Section Block.
+  Variable H : Type.
+  Variable HO : ops H.
+  Hypothesis HOK : ops_ok HO.
+  Hypothesis Hh2 : forall x y, op_eqb HO (op_hash2 HO x y) (op_empty HO) = false.
+  Notation AInv := (MapMutAdd.Inv H HO).
+  Notation keep L := (fun h => negb (memH HO h L)).
+
+  Lemma modify_split m adds dels targets proof m1 :
+    mm_modify HO m [] dels targets proof = Some m1 ->
+    mm_modify HO m adds dels targets proof = mm_modify HO m1 adds [] [] [].
+  Proof.
+    unfold mm_modify. destruct (MapMut.remove HO m dels targets) as [[nd ca]|]; [|discriminate].
+    cbn [add_all]. intros [= <-]. unfold MapMut.remove. cbn [ms_n ms_total ms_nodes ms_cached ms_full forallb negb fold_left].
+    change (sortN []) with (@nil N).
+    replace (deTwin (if ms_total m =? TreeRows (ms_n m) then []
+                     else translatePositions [] (TreeRows (ms_n m)) (ms_total m)) (ms_total m))
+      with (@nil N) by (destruct (ms_total m =? TreeRows (ms_n m)); reflexivity).
+    reflexivity.
+  Qed.
+
+  Theorem modify_block_AInv s R m xs adds dels targets proof : AInv s R m ->
+    (forall h a b, In (Some h) s -> h <> op_hash2 HO a b) ->
+    NoDup xs ->
+    (forall x, In x xs -> In x (layout HO s) /\ nleaf x = true /\ In (nhash x) R) ->
+    (forall h, In h dels <-> exists x, In x xs /\ nhash x = h) ->
+    Permutation targets (map (npos (rows_of (num_leaves s))) xs) ->
+    N.of_nat (length s) + N.of_nat (length adds) <= 2 ^ 63 ->
+    adds_ok H HO (kill HO dels s) (filter (keep dels) R) (ms_full m) adds ->
+    exists m', mm_modify HO m adds dels targets proof = Some m' /\
+      AInv (apply_block HO s dels (map fst adds))
+           (fold_left (Rnext H (ms_full m)) adds (filter (keep dels) R)) m' /\
+      ms_total m <= ms_total m' /\ ms_full m' = ms_full m.
+  Proof.
+    intros I Hnn Hnd Hxs Hdels Hperm Hfit Hok.
+    destruct (delete_leaves_AInv H HO HOK s R m xs dels targets proof I Hnn Hnd Hxs Hdels Hperm)
+      as (m1 & E1 & I1 & En & ET & Ef).
+    rewrite (modify_split m adds dels targets proof m1 E1).
+    destruct (modify_adds_gen H HO HOK Hh2 adds (kill HO dels s) (filter (keep dels) R) m1 I1) as (m2 & E2 & I2 & HT2 & Ef2).
+    - rewrite (length_kill H HO). exact Hfit.
+    - rewrite Ef. exact Hok.
+    - exists m2. split; [exact E2|]. rewrite Ef in I2. split; [exact I2|]. split; [lia|congruence].
+  Qed.
+  (** ... the targets as the map forest reports them *)
+  Theorem modify_block_hashes_AInv s R m adds dels proof : AInv s R m ->
+    (forall h a b, In (Some h) s -> h <> op_hash2 HO a b) ->
+    NoDup dels -> (forall h, In h dels -> In h R) ->
+    N.of_nat (length s) + N.of_nat (length adds) <= 2 ^ 63 ->
+    adds_ok H HO (kill HO dels s) (filter (keep dels) R) (ms_full m) adds ->
+    exists m', mm_modify HO m adds dels (GetLeafHashPositions HO m dels) proof = Some m' /\
+      AInv (apply_block HO s dels (map fst adds))
+           (fold_left (Rnext H (ms_full m)) adds (filter (keep dels) R)) m' /\
+      ms_total m <= ms_total m' /\ ms_full m' = ms_full m.
+  Proof.
+    intros I Hnn Hnd Hsub Hfit Hok.
+    destruct (delete_hashes_AInv H HO HOK s R m dels proof I Hnn Hnd Hsub) as (m1 & E1 & I1 & En & ET & Ef).
+    rewrite (modify_split m adds dels _ proof m1 E1).
+    destruct (modify_adds_gen H HO HOK Hh2 adds (kill HO dels s) (filter (keep dels) R) m1 I1) as (m2 & E2 & I2 & HT2 & Ef2).
+    - rewrite (length_kill H HO). exact Hfit.
+    - rewrite Ef. exact Hok.
+    - exists m2. split; [exact E2|]. rewrite Ef in I2. split; [exact I2|]. split; [lia|congruence].
+  Qed.
+End Block.
+
+From Utreexo Require Import Spec.Term.
+
+(** Example: the partial forest of [MapMutAdd.mma_adds] (9 leaves, remembering 1, 4 and 9, started
+    with 0 allocated rows, so that it was remapped); a block that deletes the leaves 4 and 1 (in
+    this order of the hashes) and adds two leaves keeps [MapMutAdd.Inv]; what is stored afterwards
+    is allowed. *)
+Example mrt_ex :
+  exists m1 m2,
+    mm_modify term_ops (mkM [] [] 0 0 false) mma_adds [] [] [] = Some m1 /\
+    mm_modify term_ops m1 [(Atom 10, true); (Atom 11, false)] [Atom 4; Atom 1]
+              (GetLeafHashPositions term_ops m1 [Atom 4; Atom 1]) [] = Some m2 /\
+    MapMutAdd.Inv term term_ops
+      (apply_block term_ops (map Some (map fst mma_adds)) [Atom 4; Atom 1] [Atom 10; Atom 11])
+      [Atom 9; Atom 10] m2 /\
+    (forall p, In p (stored_min m2) ->
+       exists al, allowed_pos term_ops
+                    (apply_block term_ops (map Some (map fst mma_adds)) [Atom 4; Atom 1] [Atom 10; Atom 11])
+                    [Atom 9; Atom 10] = Some al /\ In p al).
+Proof.
+  destruct (modify_adds_gen term term_ops term_ops_ok term_node_nonzero mma_adds [] []
+              (mkM [] [] 0 0 false) (MapMutAdd.Inv_empty term term_ops 0 false ltac:(discriminate)))
+    as (m1 & E1 & I1 & _ & F1).
+  - cbn. discriminate.
+  - apply (adds_okb_sound term term_ops term_ops_ok). vm_compute. reflexivity.
+  - cbn [ms_full] in I1, F1.
+    change (fold_left (Rnext term false) mma_adds []) with [Atom 1; Atom 4; Atom 9] in I1.
+    change ([] ++ map Some (map fst mma_adds)) with (map Some (map fst mma_adds)) in I1.
+    assert (Hnn : forall h a b, In (Some h) (map Some (map fst mma_adds)) -> h <> op_hash2 term_ops a b).
+    { intros h a b Hin. cbn in Hin. repeat (destruct Hin as [E|Hin]; [injection E as <-; discriminate|]). destruct Hin. }
+    destruct (modify_block_hashes_AInv term term_ops term_ops_ok term_node_nonzero
+                (map Some (map fst mma_adds)) [Atom 1; Atom 4; Atom 9] m1
+                [(Atom 10, true); (Atom 11, false)] [Atom 4; Atom 1] [] I1 Hnn)
+      as (m2 & E2 & I2 & _ & F2).
+    + repeat constructor; cbn; intuition discriminate.
+    + intros h [<-|[<-|[]]]; cbn; auto.
+    + cbn. discriminate.
+    + rewrite F1. apply (adds_okb_sound term term_ops term_ops_ok). vm_compute. reflexivity.
+    + rewrite F1 in I2, F2.
+      change (fold_left (Rnext term false) [(Atom 10, true); (Atom 11, false)]
+                (filter (fun h => negb (memH term_ops h [Atom 4; Atom 1])) [Atom 1; Atom 4; Atom 9]))
+        with [Atom 9; Atom 10] in I2.
+      exists m1, m2. split; [exact E1|]. split; [exact E2|]. split; [exact I2|].
+      exact (Inv_stores_allowed term term_ops term_ops_ok _ _ _ I2 F2).
+Qed.
+
+(** every theorem is axiom-free *)
 Print Assumptions delete_leaves_AInv_full.
+Print Assumptions delete_leaves_AInv.
+Print Assumptions delete_hashes_AInv.
+Print Assumptions modify_block_AInv.
+Print Assumptions modify_block_hashes_AInv.
+Print Assumptions mrt_ex.
